@@ -51,115 +51,289 @@ def tagBlock0 : Block where
 
 def tagBlock1 : Block where
   fty := ⟨false, .int⟩
-  probes := [.num (-4), .num (-2), .num 0, .num 2, .num 4, .num 6, .num 8, .num 10, .num 12]
+  probes := [.num (-4), .num (-2), .num 0, .num 2, .num 4, .num 6, .num 8, .num 10, .num 12, .num 18014398509481984, .num 18014398509481986, .num 18014398509481988, .num 18446744073709551612, .num 18446744073709551614, .num (-18446744073709551616), .num (-18446744073709551614)]
   singles := [
-    (.required, [true, true, true, true, true, true, true, true, true]),
-    (.min 3, [false, false, false, false, false, true, true, true, true]),
-    (.max 5, [true, true, true, true, true, true, true, true, false]),
-    (.positive, [false, false, false, true, true, true, true, true, true]),
-    (.negative, [true, true, false, false, false, false, false, false, false]),
-    (.nonnegative, [true, true, true, true, true, true, true, true, true]),
-    (.nonpositive, [true, true, true, true, true, true, true, true, true])
+    (.required, [true, true, true, true, true, true, true, true, true, true, true, true, true, true, true, true]),
+    (.min 3, [false, false, false, false, false, true, true, true, true, true, true, true, true, true, false, false]),
+    (.max 5, [true, true, true, true, true, true, true, true, false, false, false, false, false, false, true, true]),
+    (.positive, [false, false, false, true, true, true, true, true, true, true, true, true, true, true, false, false]),
+    (.negative, [true, true, false, false, false, false, false, false, false, false, false, false, false, false, true, true]),
+    (.nonnegative, [true, true, true, true, true, true, true, true, true, true, true, true, true, true, true, true]),
+    (.nonpositive, [true, true, true, true, true, true, true, true, true, true, true, true, true, true, true, true]),
+    (.min 9007199254740993, [false, false, false, false, false, false, false, false, false, false, true, true, true, true, false, false]),
+    (.max 9007199254740993, [true, true, true, true, true, true, true, true, true, true, true, false, false, false, true, true]),
+    (.min 9223372036854775807, [false, false, false, false, false, false, false, false, false, false, false, false, false, true, false, false]),
+    (.max 9223372036854775807, [true, true, true, true, true, true, true, true, true, true, true, true, true, true, true, true]),
+    (.min (-9223372036854775808), [true, true, true, true, true, true, true, true, true, true, true, true, true, true, true, true]),
+    (.max (-9223372036854775808), [false, false, false, false, false, false, false, false, false, false, false, false, false, false, true, false]),
+    (.gt 9007199254740993, [false, false, false, false, false, false, false, false, false, false, true, true, true, true, false, false]),
+    (.gte 9007199254740993, [false, false, false, false, false, false, false, false, false, true, true, true, true, true, false, false]),
+    (.lt 9007199254740993, [true, true, true, true, true, true, true, true, true, false, false, false, false, false, true, true]),
+    (.lte 9007199254740993, [true, true, true, true, true, true, true, true, true, true, false, false, false, false, true, true]),
+    (.gt 3, [false, false, false, false, false, false, true, true, true, true, true, true, true, true, false, false]),
+    (.gte 3, [false, false, false, false, false, true, true, true, true, true, true, true, true, true, false, false]),
+    (.lt 5, [true, true, true, true, true, true, true, false, false, false, false, false, false, false, true, true]),
+    (.lte 5, [true, true, true, true, true, true, true, true, false, false, false, false, false, false, true, true])
   ]
   pairs := [
-    (.required, .min 3, [false, false, false, false, false, true, true, true, true], [false, false, false, false, false, true, true, true, true]),
-    (.required, .max 5, [true, true, true, true, true, true, true, true, false], [true, true, true, true, true, true, true, true, false]),
-    (.required, .positive, [false, false, false, true, true, true, true, true, true], [false, false, false, true, true, true, true, true, true]),
-    (.required, .negative, [true, true, false, false, false, false, false, false, false], [true, true, false, false, false, false, false, false, false]),
-    (.required, .nonnegative, [true, true, true, true, true, true, true, true, true], [true, true, true, true, true, true, true, true, true]),
-    (.required, .nonpositive, [true, true, true, true, true, true, true, true, true], [true, true, true, true, true, true, true, true, true]),
-    (.min 3, .max 5, [false, false, false, false, false, true, true, true, false], [false, false, false, false, false, true, true, true, false]),
-    (.min 3, .positive, [false, false, false, false, false, true, true, true, true], [false, false, false, false, false, true, true, true, true]),
-    (.min 3, .negative, [false, false, false, false, false, false, false, false, false], [false, false, false, false, false, false, false, false, false]),
-    (.min 3, .nonnegative, [false, false, false, false, false, true, true, true, true], [false, false, false, false, false, true, true, true, true]),
-    (.min 3, .nonpositive, [false, false, false, false, false, true, true, true, true], [false, false, false, false, false, true, true, true, true]),
-    (.max 5, .positive, [false, false, false, true, true, true, true, true, false], [false, false, false, true, true, true, true, true, false]),
-    (.max 5, .negative, [true, true, false, false, false, false, false, false, false], [true, true, false, false, false, false, false, false, false]),
-    (.max 5, .nonnegative, [true, true, true, true, true, true, true, true, false], [true, true, true, true, true, true, true, true, false]),
-    (.max 5, .nonpositive, [true, true, true, true, true, true, true, true, false], [true, true, true, true, true, true, true, true, false]),
-    (.positive, .negative, [false, false, false, false, false, false, false, false, false], [false, false, false, false, false, false, false, false, false]),
-    (.positive, .nonnegative, [false, false, false, true, true, true, true, true, true], [false, false, false, true, true, true, true, true, true]),
-    (.positive, .nonpositive, [false, false, false, true, true, true, true, true, true], [false, false, false, true, true, true, true, true, true]),
-    (.negative, .nonnegative, [true, true, false, false, false, false, false, false, false], [true, true, false, false, false, false, false, false, false]),
-    (.negative, .nonpositive, [true, true, false, false, false, false, false, false, false], [true, true, false, false, false, false, false, false, false]),
-    (.nonnegative, .nonpositive, [true, true, true, true, true, true, true, true, true], [true, true, true, true, true, true, true, true, true])
+    (.required, .min 3, [false, false, false, false, false, true, true, true, true, true, true, true, true, true, false, false], [false, false, false, false, false, true, true, true, true, true, true, true, true, true, false, false]),
+    (.required, .max 5, [true, true, true, true, true, true, true, true, false, false, false, false, false, false, true, true], [true, true, true, true, true, true, true, true, false, false, false, false, false, false, true, true]),
+    (.required, .positive, [false, false, false, true, true, true, true, true, true, true, true, true, true, true, false, false], [false, false, false, true, true, true, true, true, true, true, true, true, true, true, false, false]),
+    (.required, .negative, [true, true, false, false, false, false, false, false, false, false, false, false, false, false, true, true], [true, true, false, false, false, false, false, false, false, false, false, false, false, false, true, true]),
+    (.required, .nonnegative, [true, true, true, true, true, true, true, true, true, true, true, true, true, true, true, true], [true, true, true, true, true, true, true, true, true, true, true, true, true, true, true, true]),
+    (.required, .nonpositive, [true, true, true, true, true, true, true, true, true, true, true, true, true, true, true, true], [true, true, true, true, true, true, true, true, true, true, true, true, true, true, true, true]),
+    (.min 3, .max 5, [false, false, false, false, false, true, true, true, false, false, false, false, false, false, false, false], [false, false, false, false, false, true, true, true, false, false, false, false, false, false, false, false]),
+    (.min 3, .positive, [false, false, false, false, false, true, true, true, true, true, true, true, true, true, false, false], [false, false, false, false, false, true, true, true, true, true, true, true, true, true, false, false]),
+    (.min 3, .negative, [false, false, false, false, false, false, false, false, false, false, false, false, false, false, false, false], [false, false, false, false, false, false, false, false, false, false, false, false, false, false, false, false]),
+    (.min 3, .nonnegative, [false, false, false, false, false, true, true, true, true, true, true, true, true, true, false, false], [false, false, false, false, false, true, true, true, true, true, true, true, true, true, false, false]),
+    (.min 3, .nonpositive, [false, false, false, false, false, true, true, true, true, true, true, true, true, true, false, false], [false, false, false, false, false, true, true, true, true, true, true, true, true, true, false, false]),
+    (.max 5, .positive, [false, false, false, true, true, true, true, true, false, false, false, false, false, false, false, false], [false, false, false, true, true, true, true, true, false, false, false, false, false, false, false, false]),
+    (.max 5, .negative, [true, true, false, false, false, false, false, false, false, false, false, false, false, false, true, true], [true, true, false, false, false, false, false, false, false, false, false, false, false, false, true, true]),
+    (.max 5, .nonnegative, [true, true, true, true, true, true, true, true, false, false, false, false, false, false, true, true], [true, true, true, true, true, true, true, true, false, false, false, false, false, false, true, true]),
+    (.max 5, .nonpositive, [true, true, true, true, true, true, true, true, false, false, false, false, false, false, true, true], [true, true, true, true, true, true, true, true, false, false, false, false, false, false, true, true]),
+    (.positive, .negative, [false, false, false, false, false, false, false, false, false, false, false, false, false, false, false, false], [false, false, false, false, false, false, false, false, false, false, false, false, false, false, false, false]),
+    (.positive, .nonnegative, [false, false, false, true, true, true, true, true, true, true, true, true, true, true, false, false], [false, false, false, true, true, true, true, true, true, true, true, true, true, true, false, false]),
+    (.positive, .nonpositive, [false, false, false, true, true, true, true, true, true, true, true, true, true, true, false, false], [false, false, false, true, true, true, true, true, true, true, true, true, true, true, false, false]),
+    (.negative, .nonnegative, [true, true, false, false, false, false, false, false, false, false, false, false, false, false, true, true], [true, true, false, false, false, false, false, false, false, false, false, false, false, false, true, true]),
+    (.negative, .nonpositive, [true, true, false, false, false, false, false, false, false, false, false, false, false, false, true, true], [true, true, false, false, false, false, false, false, false, false, false, false, false, false, true, true]),
+    (.nonnegative, .nonpositive, [true, true, true, true, true, true, true, true, true, true, true, true, true, true, true, true], [true, true, true, true, true, true, true, true, true, true, true, true, true, true, true, true])
   ]
 
 def tagBlock2 : Block where
   fty := ⟨false, .int8⟩
-  probes := [.num (-4), .num (-2), .num 0, .num 2, .num 4, .num 6, .num 8, .num 10, .num 12]
+  probes := [.num (-4), .num (-2), .num 0, .num 2, .num 4, .num 6, .num 8, .num 10, .num 12, .num 252, .num 254, .num (-256), .num (-254)]
   singles := [
-    (.required, [true, true, true, true, true, true, true, true, true]),
-    (.min 3, [true, true, true, true, true, true, true, true, true]),
-    (.max 5, [true, true, true, true, true, true, true, true, true]),
-    (.positive, [true, true, true, true, true, true, true, true, true]),
-    (.negative, [true, true, true, true, true, true, true, true, true]),
-    (.nonnegative, [true, true, true, true, true, true, true, true, true]),
-    (.nonpositive, [true, true, true, true, true, true, true, true, true])
+    (.required, [true, true, true, true, true, true, true, true, true, true, true, true, true]),
+    (.min 3, [true, true, true, true, true, true, true, true, true, true, true, true, true]),
+    (.max 5, [true, true, true, true, true, true, true, true, true, true, true, true, true]),
+    (.positive, [true, true, true, true, true, true, true, true, true, true, true, true, true]),
+    (.negative, [true, true, true, true, true, true, true, true, true, true, true, true, true]),
+    (.nonnegative, [true, true, true, true, true, true, true, true, true, true, true, true, true]),
+    (.nonpositive, [true, true, true, true, true, true, true, true, true, true, true, true, true]),
+    (.min 127, [true, true, true, true, true, true, true, true, true, true, true, true, true]),
+    (.max 127, [true, true, true, true, true, true, true, true, true, true, true, true, true]),
+    (.min (-128), [true, true, true, true, true, true, true, true, true, true, true, true, true]),
+    (.max (-128), [true, true, true, true, true, true, true, true, true, true, true, true, true]),
+    (.gt 3, [true, true, true, true, true, true, true, true, true, true, true, true, true]),
+    (.gte 3, [true, true, true, true, true, true, true, true, true, true, true, true, true]),
+    (.lt 5, [true, true, true, true, true, true, true, true, true, true, true, true, true]),
+    (.lte 5, [true, true, true, true, true, true, true, true, true, true, true, true, true])
   ]
   pairs := [
-    (.required, .min 3, [true, true, true, true, true, true, true, true, true], [true, true, true, true, true, true, true, true, true]),
-    (.required, .max 5, [true, true, true, true, true, true, true, true, true], [true, true, true, true, true, true, true, true, true]),
-    (.required, .positive, [true, true, true, true, true, true, true, true, true], [true, true, true, true, true, true, true, true, true]),
-    (.required, .negative, [true, true, true, true, true, true, true, true, true], [true, true, true, true, true, true, true, true, true]),
-    (.required, .nonnegative, [true, true, true, true, true, true, true, true, true], [true, true, true, true, true, true, true, true, true]),
-    (.required, .nonpositive, [true, true, true, true, true, true, true, true, true], [true, true, true, true, true, true, true, true, true]),
-    (.min 3, .max 5, [true, true, true, true, true, true, true, true, true], [true, true, true, true, true, true, true, true, true]),
-    (.min 3, .positive, [true, true, true, true, true, true, true, true, true], [true, true, true, true, true, true, true, true, true]),
-    (.min 3, .negative, [true, true, true, true, true, true, true, true, true], [true, true, true, true, true, true, true, true, true]),
-    (.min 3, .nonnegative, [true, true, true, true, true, true, true, true, true], [true, true, true, true, true, true, true, true, true]),
-    (.min 3, .nonpositive, [true, true, true, true, true, true, true, true, true], [true, true, true, true, true, true, true, true, true]),
-    (.max 5, .positive, [true, true, true, true, true, true, true, true, true], [true, true, true, true, true, true, true, true, true]),
-    (.max 5, .negative, [true, true, true, true, true, true, true, true, true], [true, true, true, true, true, true, true, true, true]),
-    (.max 5, .nonnegative, [true, true, true, true, true, true, true, true, true], [true, true, true, true, true, true, true, true, true]),
-    (.max 5, .nonpositive, [true, true, true, true, true, true, true, true, true], [true, true, true, true, true, true, true, true, true]),
-    (.positive, .negative, [true, true, true, true, true, true, true, true, true], [true, true, true, true, true, true, true, true, true]),
-    (.positive, .nonnegative, [true, true, true, true, true, true, true, true, true], [true, true, true, true, true, true, true, true, true]),
-    (.positive, .nonpositive, [true, true, true, true, true, true, true, true, true], [true, true, true, true, true, true, true, true, true]),
-    (.negative, .nonnegative, [true, true, true, true, true, true, true, true, true], [true, true, true, true, true, true, true, true, true]),
-    (.negative, .nonpositive, [true, true, true, true, true, true, true, true, true], [true, true, true, true, true, true, true, true, true]),
-    (.nonnegative, .nonpositive, [true, true, true, true, true, true, true, true, true], [true, true, true, true, true, true, true, true, true])
+    (.required, .min 3, [true, true, true, true, true, true, true, true, true, true, true, true, true], [true, true, true, true, true, true, true, true, true, true, true, true, true]),
+    (.required, .max 5, [true, true, true, true, true, true, true, true, true, true, true, true, true], [true, true, true, true, true, true, true, true, true, true, true, true, true]),
+    (.required, .positive, [true, true, true, true, true, true, true, true, true, true, true, true, true], [true, true, true, true, true, true, true, true, true, true, true, true, true]),
+    (.required, .negative, [true, true, true, true, true, true, true, true, true, true, true, true, true], [true, true, true, true, true, true, true, true, true, true, true, true, true]),
+    (.required, .nonnegative, [true, true, true, true, true, true, true, true, true, true, true, true, true], [true, true, true, true, true, true, true, true, true, true, true, true, true]),
+    (.required, .nonpositive, [true, true, true, true, true, true, true, true, true, true, true, true, true], [true, true, true, true, true, true, true, true, true, true, true, true, true]),
+    (.min 3, .max 5, [true, true, true, true, true, true, true, true, true, true, true, true, true], [true, true, true, true, true, true, true, true, true, true, true, true, true]),
+    (.min 3, .positive, [true, true, true, true, true, true, true, true, true, true, true, true, true], [true, true, true, true, true, true, true, true, true, true, true, true, true]),
+    (.min 3, .negative, [true, true, true, true, true, true, true, true, true, true, true, true, true], [true, true, true, true, true, true, true, true, true, true, true, true, true]),
+    (.min 3, .nonnegative, [true, true, true, true, true, true, true, true, true, true, true, true, true], [true, true, true, true, true, true, true, true, true, true, true, true, true]),
+    (.min 3, .nonpositive, [true, true, true, true, true, true, true, true, true, true, true, true, true], [true, true, true, true, true, true, true, true, true, true, true, true, true]),
+    (.max 5, .positive, [true, true, true, true, true, true, true, true, true, true, true, true, true], [true, true, true, true, true, true, true, true, true, true, true, true, true]),
+    (.max 5, .negative, [true, true, true, true, true, true, true, true, true, true, true, true, true], [true, true, true, true, true, true, true, true, true, true, true, true, true]),
+    (.max 5, .nonnegative, [true, true, true, true, true, true, true, true, true, true, true, true, true], [true, true, true, true, true, true, true, true, true, true, true, true, true]),
+    (.max 5, .nonpositive, [true, true, true, true, true, true, true, true, true, true, true, true, true], [true, true, true, true, true, true, true, true, true, true, true, true, true]),
+    (.positive, .negative, [true, true, true, true, true, true, true, true, true, true, true, true, true], [true, true, true, true, true, true, true, true, true, true, true, true, true]),
+    (.positive, .nonnegative, [true, true, true, true, true, true, true, true, true, true, true, true, true], [true, true, true, true, true, true, true, true, true, true, true, true, true]),
+    (.positive, .nonpositive, [true, true, true, true, true, true, true, true, true, true, true, true, true], [true, true, true, true, true, true, true, true, true, true, true, true, true]),
+    (.negative, .nonnegative, [true, true, true, true, true, true, true, true, true, true, true, true, true], [true, true, true, true, true, true, true, true, true, true, true, true, true]),
+    (.negative, .nonpositive, [true, true, true, true, true, true, true, true, true, true, true, true, true], [true, true, true, true, true, true, true, true, true, true, true, true, true]),
+    (.nonnegative, .nonpositive, [true, true, true, true, true, true, true, true, true, true, true, true, true], [true, true, true, true, true, true, true, true, true, true, true, true, true])
   ]
 
 def tagBlock3 : Block where
   fty := ⟨false, .int16⟩
-  probes := [.num (-4), .num (-2), .num 0, .num 2, .num 4, .num 6, .num 8, .num 10, .num 12]
+  probes := [.num (-4), .num (-2), .num 0, .num 2, .num 4, .num 6, .num 8, .num 10, .num 12, .num 65532, .num 65534, .num (-65536), .num (-65534)]
   singles := [
-    (.required, [true, true, true, true, true, true, true, true, true]),
-    (.min 3, [true, true, true, true, true, true, true, true, true]),
-    (.max 5, [true, true, true, true, true, true, true, true, true]),
-    (.positive, [true, true, true, true, true, true, true, true, true]),
-    (.negative, [true, true, true, true, true, true, true, true, true]),
-    (.nonnegative, [true, true, true, true, true, true, true, true, true]),
-    (.nonpositive, [true, true, true, true, true, true, true, true, true])
+    (.required, [true, true, true, true, true, true, true, true, true, true, true, true, true]),
+    (.min 3, [true, true, true, true, true, true, true, true, true, true, true, true, true]),
+    (.max 5, [true, true, true, true, true, true, true, true, true, true, true, true, true]),
+    (.positive, [true, true, true, true, true, true, true, true, true, true, true, true, true]),
+    (.negative, [true, true, true, true, true, true, true, true, true, true, true, true, true]),
+    (.nonnegative, [true, true, true, true, true, true, true, true, true, true, true, true, true]),
+    (.nonpositive, [true, true, true, true, true, true, true, true, true, true, true, true, true]),
+    (.min 32767, [true, true, true, true, true, true, true, true, true, true, true, true, true]),
+    (.max 32767, [true, true, true, true, true, true, true, true, true, true, true, true, true]),
+    (.min (-32768), [true, true, true, true, true, true, true, true, true, true, true, true, true]),
+    (.max (-32768), [true, true, true, true, true, true, true, true, true, true, true, true, true]),
+    (.gt 3, [true, true, true, true, true, true, true, true, true, true, true, true, true]),
+    (.gte 3, [true, true, true, true, true, true, true, true, true, true, true, true, true]),
+    (.lt 5, [true, true, true, true, true, true, true, true, true, true, true, true, true]),
+    (.lte 5, [true, true, true, true, true, true, true, true, true, true, true, true, true])
   ]
   pairs := [
-    (.required, .min 3, [true, true, true, true, true, true, true, true, true], [true, true, true, true, true, true, true, true, true]),
-    (.required, .max 5, [true, true, true, true, true, true, true, true, true], [true, true, true, true, true, true, true, true, true]),
-    (.required, .positive, [true, true, true, true, true, true, true, true, true], [true, true, true, true, true, true, true, true, true]),
-    (.required, .negative, [true, true, true, true, true, true, true, true, true], [true, true, true, true, true, true, true, true, true]),
-    (.required, .nonnegative, [true, true, true, true, true, true, true, true, true], [true, true, true, true, true, true, true, true, true]),
-    (.required, .nonpositive, [true, true, true, true, true, true, true, true, true], [true, true, true, true, true, true, true, true, true]),
-    (.min 3, .max 5, [true, true, true, true, true, true, true, true, true], [true, true, true, true, true, true, true, true, true]),
-    (.min 3, .positive, [true, true, true, true, true, true, true, true, true], [true, true, true, true, true, true, true, true, true]),
-    (.min 3, .negative, [true, true, true, true, true, true, true, true, true], [true, true, true, true, true, true, true, true, true]),
-    (.min 3, .nonnegative, [true, true, true, true, true, true, true, true, true], [true, true, true, true, true, true, true, true, true]),
-    (.min 3, .nonpositive, [true, true, true, true, true, true, true, true, true], [true, true, true, true, true, true, true, true, true]),
-    (.max 5, .positive, [true, true, true, true, true, true, true, true, true], [true, true, true, true, true, true, true, true, true]),
-    (.max 5, .negative, [true, true, true, true, true, true, true, true, true], [true, true, true, true, true, true, true, true, true]),
-    (.max 5, .nonnegative, [true, true, true, true, true, true, true, true, true], [true, true, true, true, true, true, true, true, true]),
-    (.max 5, .nonpositive, [true, true, true, true, true, true, true, true, true], [true, true, true, true, true, true, true, true, true]),
-    (.positive, .negative, [true, true, true, true, true, true, true, true, true], [true, true, true, true, true, true, true, true, true]),
-    (.positive, .nonnegative, [true, true, true, true, true, true, true, true, true], [true, true, true, true, true, true, true, true, true]),
-    (.positive, .nonpositive, [true, true, true, true, true, true, true, true, true], [true, true, true, true, true, true, true, true, true]),
-    (.negative, .nonnegative, [true, true, true, true, true, true, true, true, true], [true, true, true, true, true, true, true, true, true]),
-    (.negative, .nonpositive, [true, true, true, true, true, true, true, true, true], [true, true, true, true, true, true, true, true, true]),
-    (.nonnegative, .nonpositive, [true, true, true, true, true, true, true, true, true], [true, true, true, true, true, true, true, true, true])
+    (.required, .min 3, [true, true, true, true, true, true, true, true, true, true, true, true, true], [true, true, true, true, true, true, true, true, true, true, true, true, true]),
+    (.required, .max 5, [true, true, true, true, true, true, true, true, true, true, true, true, true], [true, true, true, true, true, true, true, true, true, true, true, true, true]),
+    (.required, .positive, [true, true, true, true, true, true, true, true, true, true, true, true, true], [true, true, true, true, true, true, true, true, true, true, true, true, true]),
+    (.required, .negative, [true, true, true, true, true, true, true, true, true, true, true, true, true], [true, true, true, true, true, true, true, true, true, true, true, true, true]),
+    (.required, .nonnegative, [true, true, true, true, true, true, true, true, true, true, true, true, true], [true, true, true, true, true, true, true, true, true, true, true, true, true]),
+    (.required, .nonpositive, [true, true, true, true, true, true, true, true, true, true, true, true, true], [true, true, true, true, true, true, true, true, true, true, true, true, true]),
+    (.min 3, .max 5, [true, true, true, true, true, true, true, true, true, true, true, true, true], [true, true, true, true, true, true, true, true, true, true, true, true, true]),
+    (.min 3, .positive, [true, true, true, true, true, true, true, true, true, true, true, true, true], [true, true, true, true, true, true, true, true, true, true, true, true, true]),
+    (.min 3, .negative, [true, true, true, true, true, true, true, true, true, true, true, true, true], [true, true, true, true, true, true, true, true, true, true, true, true, true]),
+    (.min 3, .nonnegative, [true, true, true, true, true, true, true, true, true, true, true, true, true], [true, true, true, true, true, true, true, true, true, true, true, true, true]),
+    (.min 3, .nonpositive, [true, true, true, true, true, true, true, true, true, true, true, true, true], [true, true, true, true, true, true, true, true, true, true, true, true, true]),
+    (.max 5, .positive, [true, true, true, true, true, true, true, true, true, true, true, true, true], [true, true, true, true, true, true, true, true, true, true, true, true, true]),
+    (.max 5, .negative, [true, true, true, true, true, true, true, true, true, true, true, true, true], [true, true, true, true, true, true, true, true, true, true, true, true, true]),
+    (.max 5, .nonnegative, [true, true, true, true, true, true, true, true, true, true, true, true, true], [true, true, true, true, true, true, true, true, true, true, true, true, true]),
+    (.max 5, .nonpositive, [true, true, true, true, true, true, true, true, true, true, true, true, true], [true, true, true, true, true, true, true, true, true, true, true, true, true]),
+    (.positive, .negative, [true, true, true, true, true, true, true, true, true, true, true, true, true], [true, true, true, true, true, true, true, true, true, true, true, true, true]),
+    (.positive, .nonnegative, [true, true, true, true, true, true, true, true, true, true, true, true, true], [true, true, true, true, true, true, true, true, true, true, true, true, true]),
+    (.positive, .nonpositive, [true, true, true, true, true, true, true, true, true, true, true, true, true], [true, true, true, true, true, true, true, true, true, true, true, true, true]),
+    (.negative, .nonnegative, [true, true, true, true, true, true, true, true, true, true, true, true, true], [true, true, true, true, true, true, true, true, true, true, true, true, true]),
+    (.negative, .nonpositive, [true, true, true, true, true, true, true, true, true, true, true, true, true], [true, true, true, true, true, true, true, true, true, true, true, true, true]),
+    (.nonnegative, .nonpositive, [true, true, true, true, true, true, true, true, true, true, true, true, true], [true, true, true, true, true, true, true, true, true, true, true, true, true])
   ]
 
 def tagBlock4 : Block where
   fty := ⟨false, .int32⟩
-  probes := [.num (-4), .num (-2), .num 0, .num 2, .num 4, .num 6, .num 8, .num 10, .num 12]
+  probes := [.num (-4), .num (-2), .num 0, .num 2, .num 4, .num 6, .num 8, .num 10, .num 12, .num 4294967292, .num 4294967294, .num (-4294967296), .num (-4294967294)]
+  singles := [
+    (.required, [true, true, true, true, true, true, true, true, true, true, true, true, true]),
+    (.min 3, [true, true, true, true, true, true, true, true, true, true, true, true, true]),
+    (.max 5, [true, true, true, true, true, true, true, true, true, true, true, true, true]),
+    (.positive, [true, true, true, true, true, true, true, true, true, true, true, true, true]),
+    (.negative, [true, true, true, true, true, true, true, true, true, true, true, true, true]),
+    (.nonnegative, [true, true, true, true, true, true, true, true, true, true, true, true, true]),
+    (.nonpositive, [true, true, true, true, true, true, true, true, true, true, true, true, true]),
+    (.min 2147483647, [true, true, true, true, true, true, true, true, true, true, true, true, true]),
+    (.max 2147483647, [true, true, true, true, true, true, true, true, true, true, true, true, true]),
+    (.min (-2147483648), [true, true, true, true, true, true, true, true, true, true, true, true, true]),
+    (.max (-2147483648), [true, true, true, true, true, true, true, true, true, true, true, true, true]),
+    (.gt 3, [true, true, true, true, true, true, true, true, true, true, true, true, true]),
+    (.gte 3, [true, true, true, true, true, true, true, true, true, true, true, true, true]),
+    (.lt 5, [true, true, true, true, true, true, true, true, true, true, true, true, true]),
+    (.lte 5, [true, true, true, true, true, true, true, true, true, true, true, true, true])
+  ]
+  pairs := [
+    (.required, .min 3, [true, true, true, true, true, true, true, true, true, true, true, true, true], [true, true, true, true, true, true, true, true, true, true, true, true, true]),
+    (.required, .max 5, [true, true, true, true, true, true, true, true, true, true, true, true, true], [true, true, true, true, true, true, true, true, true, true, true, true, true]),
+    (.required, .positive, [true, true, true, true, true, true, true, true, true, true, true, true, true], [true, true, true, true, true, true, true, true, true, true, true, true, true]),
+    (.required, .negative, [true, true, true, true, true, true, true, true, true, true, true, true, true], [true, true, true, true, true, true, true, true, true, true, true, true, true]),
+    (.required, .nonnegative, [true, true, true, true, true, true, true, true, true, true, true, true, true], [true, true, true, true, true, true, true, true, true, true, true, true, true]),
+    (.required, .nonpositive, [true, true, true, true, true, true, true, true, true, true, true, true, true], [true, true, true, true, true, true, true, true, true, true, true, true, true]),
+    (.min 3, .max 5, [true, true, true, true, true, true, true, true, true, true, true, true, true], [true, true, true, true, true, true, true, true, true, true, true, true, true]),
+    (.min 3, .positive, [true, true, true, true, true, true, true, true, true, true, true, true, true], [true, true, true, true, true, true, true, true, true, true, true, true, true]),
+    (.min 3, .negative, [true, true, true, true, true, true, true, true, true, true, true, true, true], [true, true, true, true, true, true, true, true, true, true, true, true, true]),
+    (.min 3, .nonnegative, [true, true, true, true, true, true, true, true, true, true, true, true, true], [true, true, true, true, true, true, true, true, true, true, true, true, true]),
+    (.min 3, .nonpositive, [true, true, true, true, true, true, true, true, true, true, true, true, true], [true, true, true, true, true, true, true, true, true, true, true, true, true]),
+    (.max 5, .positive, [true, true, true, true, true, true, true, true, true, true, true, true, true], [true, true, true, true, true, true, true, true, true, true, true, true, true]),
+    (.max 5, .negative, [true, true, true, true, true, true, true, true, true, true, true, true, true], [true, true, true, true, true, true, true, true, true, true, true, true, true]),
+    (.max 5, .nonnegative, [true, true, true, true, true, true, true, true, true, true, true, true, true], [true, true, true, true, true, true, true, true, true, true, true, true, true]),
+    (.max 5, .nonpositive, [true, true, true, true, true, true, true, true, true, true, true, true, true], [true, true, true, true, true, true, true, true, true, true, true, true, true]),
+    (.positive, .negative, [true, true, true, true, true, true, true, true, true, true, true, true, true], [true, true, true, true, true, true, true, true, true, true, true, true, true]),
+    (.positive, .nonnegative, [true, true, true, true, true, true, true, true, true, true, true, true, true], [true, true, true, true, true, true, true, true, true, true, true, true, true]),
+    (.positive, .nonpositive, [true, true, true, true, true, true, true, true, true, true, true, true, true], [true, true, true, true, true, true, true, true, true, true, true, true, true]),
+    (.negative, .nonnegative, [true, true, true, true, true, true, true, true, true, true, true, true, true], [true, true, true, true, true, true, true, true, true, true, true, true, true]),
+    (.negative, .nonpositive, [true, true, true, true, true, true, true, true, true, true, true, true, true], [true, true, true, true, true, true, true, true, true, true, true, true, true]),
+    (.nonnegative, .nonpositive, [true, true, true, true, true, true, true, true, true, true, true, true, true], [true, true, true, true, true, true, true, true, true, true, true, true, true])
+  ]
+
+def tagBlock5 : Block where
+  fty := ⟨false, .int64⟩
+  probes := [.num (-4), .num (-2), .num 0, .num 2, .num 4, .num 6, .num 8, .num 10, .num 12, .num 18014398509481984, .num 18014398509481986, .num 18014398509481988, .num 18446744073709551612, .num 18446744073709551614, .num (-18446744073709551616), .num (-18446744073709551614)]
+  singles := [
+    (.required, [true, true, true, true, true, true, true, true, true, true, true, true, true, true, true, true]),
+    (.min 3, [false, false, false, false, false, true, true, true, true, true, true, true, true, true, false, false]),
+    (.max 5, [true, true, true, true, true, true, true, true, false, false, false, false, false, false, true, true]),
+    (.positive, [false, false, false, true, true, true, true, true, true, true, true, true, true, true, false, false]),
+    (.negative, [true, true, false, false, false, false, false, false, false, false, false, false, false, false, true, true]),
+    (.nonnegative, [true, true, true, true, true, true, true, true, true, true, true, true, true, true, true, true]),
+    (.nonpositive, [true, true, true, true, true, true, true, true, true, true, true, true, true, true, true, true]),
+    (.min 9007199254740993, [false, false, false, false, false, false, false, false, false, false, true, true, true, true, false, false]),
+    (.max 9007199254740993, [true, true, true, true, true, true, true, true, true, true, true, false, false, false, true, true]),
+    (.min 9223372036854775807, [false, false, false, false, false, false, false, false, false, false, false, false, false, true, false, false]),
+    (.max 9223372036854775807, [true, true, true, true, true, true, true, true, true, true, true, true, true, true, true, true]),
+    (.min (-9223372036854775808), [true, true, true, true, true, true, true, true, true, true, true, true, true, true, true, true]),
+    (.max (-9223372036854775808), [false, false, false, false, false, false, false, false, false, false, false, false, false, false, true, false]),
+    (.gt 9007199254740993, [false, false, false, false, false, false, false, false, false, false, true, true, true, true, false, false]),
+    (.gte 9007199254740993, [false, false, false, false, false, false, false, false, false, true, true, true, true, true, false, false]),
+    (.lt 9007199254740993, [true, true, true, true, true, true, true, true, true, false, false, false, false, false, true, true]),
+    (.lte 9007199254740993, [true, true, true, true, true, true, true, true, true, true, false, false, false, false, true, true]),
+    (.gt 3, [false, false, false, false, false, false, true, true, true, true, true, true, true, true, false, false]),
+    (.gte 3, [false, false, false, false, false, true, true, true, true, true, true, true, true, true, false, false]),
+    (.lt 5, [true, true, true, true, true, true, true, false, false, false, false, false, false, false, true, true]),
+    (.lte 5, [true, true, true, true, true, true, true, true, false, false, false, false, false, false, true, true])
+  ]
+  pairs := [
+    (.required, .min 3, [false, false, false, false, false, true, true, true, true, true, true, true, true, true, false, false], [false, false, false, false, false, true, true, true, true, true, true, true, true, true, false, false]),
+    (.required, .max 5, [true, true, true, true, true, true, true, true, false, false, false, false, false, false, true, true], [true, true, true, true, true, true, true, true, false, false, false, false, false, false, true, true]),
+    (.required, .positive, [false, false, false, true, true, true, true, true, true, true, true, true, true, true, false, false], [false, false, false, true, true, true, true, true, true, true, true, true, true, true, false, false]),
+    (.required, .negative, [true, true, false, false, false, false, false, false, false, false, false, false, false, false, true, true], [true, true, false, false, false, false, false, false, false, false, false, false, false, false, true, true]),
+    (.required, .nonnegative, [true, true, true, true, true, true, true, true, true, true, true, true, true, true, true, true], [true, true, true, true, true, true, true, true, true, true, true, true, true, true, true, true]),
+    (.required, .nonpositive, [true, true, true, true, true, true, true, true, true, true, true, true, true, true, true, true], [true, true, true, true, true, true, true, true, true, true, true, true, true, true, true, true]),
+    (.min 3, .max 5, [false, false, false, false, false, true, true, true, false, false, false, false, false, false, false, false], [false, false, false, false, false, true, true, true, false, false, false, false, false, false, false, false]),
+    (.min 3, .positive, [false, false, false, false, false, true, true, true, true, true, true, true, true, true, false, false], [false, false, false, false, false, true, true, true, true, true, true, true, true, true, false, false]),
+    (.min 3, .negative, [false, false, false, false, false, false, false, false, false, false, false, false, false, false, false, false], [false, false, false, false, false, false, false, false, false, false, false, false, false, false, false, false]),
+    (.min 3, .nonnegative, [false, false, false, false, false, true, true, true, true, true, true, true, true, true, false, false], [false, false, false, false, false, true, true, true, true, true, true, true, true, true, false, false]),
+    (.min 3, .nonpositive, [false, false, false, false, false, true, true, true, true, true, true, true, true, true, false, false], [false, false, false, false, false, true, true, true, true, true, true, true, true, true, false, false]),
+    (.max 5, .positive, [false, false, false, true, true, true, true, true, false, false, false, false, false, false, false, false], [false, false, false, true, true, true, true, true, false, false, false, false, false, false, false, false]),
+    (.max 5, .negative, [true, true, false, false, false, false, false, false, false, false, false, false, false, false, true, true], [true, true, false, false, false, false, false, false, false, false, false, false, false, false, true, true]),
+    (.max 5, .nonnegative, [true, true, true, true, true, true, true, true, false, false, false, false, false, false, true, true], [true, true, true, true, true, true, true, true, false, false, false, false, false, false, true, true]),
+    (.max 5, .nonpositive, [true, true, true, true, true, true, true, true, false, false, false, false, false, false, true, true], [true, true, true, true, true, true, true, true, false, false, false, false, false, false, true, true]),
+    (.positive, .negative, [false, false, false, false, false, false, false, false, false, false, false, false, false, false, false, false], [false, false, false, false, false, false, false, false, false, false, false, false, false, false, false, false]),
+    (.positive, .nonnegative, [false, false, false, true, true, true, true, true, true, true, true, true, true, true, false, false], [false, false, false, true, true, true, true, true, true, true, true, true, true, true, false, false]),
+    (.positive, .nonpositive, [false, false, false, true, true, true, true, true, true, true, true, true, true, true, false, false], [false, false, false, true, true, true, true, true, true, true, true, true, true, true, false, false]),
+    (.negative, .nonnegative, [true, true, false, false, false, false, false, false, false, false, false, false, false, false, true, true], [true, true, false, false, false, false, false, false, false, false, false, false, false, false, true, true]),
+    (.negative, .nonpositive, [true, true, false, false, false, false, false, false, false, false, false, false, false, false, true, true], [true, true, false, false, false, false, false, false, false, false, false, false, false, false, true, true]),
+    (.nonnegative, .nonpositive, [true, true, true, true, true, true, true, true, true, true, true, true, true, true, true, true], [true, true, true, true, true, true, true, true, true, true, true, true, true, true, true, true])
+  ]
+
+def tagBlock6 : Block where
+  fty := ⟨false, .uint⟩
+  probes := [.num 0, .num 2, .num 4, .num 6, .num 8, .num 10, .num 12, .num 18014398509481984, .num 18014398509481986, .num 18014398509481988, .num 18446744073709551612, .num 18446744073709551614, .num 18446744073709551616, .num 36893488147419103228, .num 36893488147419103230]
+  singles := [
+    (.required, [true, true, true, true, true, true, true, true, true, true, true, true, true, true, true]),
+    (.min 3, [true, true, true, true, true, true, true, true, true, true, true, true, true, true, true]),
+    (.max 5, [true, true, true, true, true, true, true, true, true, true, true, true, true, true, true]),
+    (.positive, [true, true, true, true, true, true, true, true, true, true, true, true, true, true, true]),
+    (.negative, [true, true, true, true, true, true, true, true, true, true, true, true, true, true, true]),
+    (.nonnegative, [true, true, true, true, true, true, true, true, true, true, true, true, true, true, true]),
+    (.nonpositive, [true, true, true, true, true, true, true, true, true, true, true, true, true, true, true]),
+    (.min 9007199254740993, [true, true, true, true, true, true, true, true, true, true, true, true, true, true, true]),
+    (.max 9007199254740993, [true, true, true, true, true, true, true, true, true, true, true, true, true, true, true]),
+    (.min 9223372036854775807, [true, true, true, true, true, true, true, true, true, true, true, true, true, true, true]),
+    (.max 9223372036854775807, [true, true, true, true, true, true, true, true, true, true, true, true, true, true, true]),
+    (.min 18446744073709551615, [true, true, true, true, true, true, true, true, true, true, true, true, true, true, true]),
+    (.max 18446744073709551615, [true, true, true, true, true, true, true, true, true, true, true, true, true, true, true]),
+    (.gt 9007199254740993, [true, true, true, true, true, true, true, true, true, true, true, true, true, true, true]),
+    (.gte 9007199254740993, [true, true, true, true, true, true, true, true, true, true, true, true, true, true, true]),
+    (.lt 9007199254740993, [true, true, true, true, true, true, true, true, true, true, true, true, true, true, true]),
+    (.lte 9007199254740993, [true, true, true, true, true, true, true, true, true, true, true, true, true, true, true]),
+    (.gt 3, [true, true, true, true, true, true, true, true, true, true, true, true, true, true, true]),
+    (.gte 3, [true, true, true, true, true, true, true, true, true, true, true, true, true, true, true]),
+    (.lt 5, [true, true, true, true, true, true, true, true, true, true, true, true, true, true, true]),
+    (.lte 5, [true, true, true, true, true, true, true, true, true, true, true, true, true, true, true])
+  ]
+  pairs := [
+    (.required, .min 3, [true, true, true, true, true, true, true, true, true, true, true, true, true, true, true], [true, true, true, true, true, true, true, true, true, true, true, true, true, true, true]),
+    (.required, .max 5, [true, true, true, true, true, true, true, true, true, true, true, true, true, true, true], [true, true, true, true, true, true, true, true, true, true, true, true, true, true, true]),
+    (.required, .positive, [true, true, true, true, true, true, true, true, true, true, true, true, true, true, true], [true, true, true, true, true, true, true, true, true, true, true, true, true, true, true]),
+    (.required, .negative, [true, true, true, true, true, true, true, true, true, true, true, true, true, true, true], [true, true, true, true, true, true, true, true, true, true, true, true, true, true, true]),
+    (.required, .nonnegative, [true, true, true, true, true, true, true, true, true, true, true, true, true, true, true], [true, true, true, true, true, true, true, true, true, true, true, true, true, true, true]),
+    (.required, .nonpositive, [true, true, true, true, true, true, true, true, true, true, true, true, true, true, true], [true, true, true, true, true, true, true, true, true, true, true, true, true, true, true]),
+    (.min 3, .max 5, [true, true, true, true, true, true, true, true, true, true, true, true, true, true, true], [true, true, true, true, true, true, true, true, true, true, true, true, true, true, true]),
+    (.min 3, .positive, [true, true, true, true, true, true, true, true, true, true, true, true, true, true, true], [true, true, true, true, true, true, true, true, true, true, true, true, true, true, true]),
+    (.min 3, .negative, [true, true, true, true, true, true, true, true, true, true, true, true, true, true, true], [true, true, true, true, true, true, true, true, true, true, true, true, true, true, true]),
+    (.min 3, .nonnegative, [true, true, true, true, true, true, true, true, true, true, true, true, true, true, true], [true, true, true, true, true, true, true, true, true, true, true, true, true, true, true]),
+    (.min 3, .nonpositive, [true, true, true, true, true, true, true, true, true, true, true, true, true, true, true], [true, true, true, true, true, true, true, true, true, true, true, true, true, true, true]),
+    (.max 5, .positive, [true, true, true, true, true, true, true, true, true, true, true, true, true, true, true], [true, true, true, true, true, true, true, true, true, true, true, true, true, true, true]),
+    (.max 5, .negative, [true, true, true, true, true, true, true, true, true, true, true, true, true, true, true], [true, true, true, true, true, true, true, true, true, true, true, true, true, true, true]),
+    (.max 5, .nonnegative, [true, true, true, true, true, true, true, true, true, true, true, true, true, true, true], [true, true, true, true, true, true, true, true, true, true, true, true, true, true, true]),
+    (.max 5, .nonpositive, [true, true, true, true, true, true, true, true, true, true, true, true, true, true, true], [true, true, true, true, true, true, true, true, true, true, true, true, true, true, true]),
+    (.positive, .negative, [true, true, true, true, true, true, true, true, true, true, true, true, true, true, true], [true, true, true, true, true, true, true, true, true, true, true, true, true, true, true]),
+    (.positive, .nonnegative, [true, true, true, true, true, true, true, true, true, true, true, true, true, true, true], [true, true, true, true, true, true, true, true, true, true, true, true, true, true, true]),
+    (.positive, .nonpositive, [true, true, true, true, true, true, true, true, true, true, true, true, true, true, true], [true, true, true, true, true, true, true, true, true, true, true, true, true, true, true]),
+    (.negative, .nonnegative, [true, true, true, true, true, true, true, true, true, true, true, true, true, true, true], [true, true, true, true, true, true, true, true, true, true, true, true, true, true, true]),
+    (.negative, .nonpositive, [true, true, true, true, true, true, true, true, true, true, true, true, true, true, true], [true, true, true, true, true, true, true, true, true, true, true, true, true, true, true]),
+    (.nonnegative, .nonpositive, [true, true, true, true, true, true, true, true, true, true, true, true, true, true, true], [true, true, true, true, true, true, true, true, true, true, true, true, true, true, true])
+  ]
+
+def tagBlock7 : Block where
+  fty := ⟨false, .uint8⟩
+  probes := [.num 0, .num 2, .num 4, .num 6, .num 8, .num 10, .num 12, .num 508, .num 510]
   singles := [
     (.required, [true, true, true, true, true, true, true, true, true]),
     (.min 3, [true, true, true, true, true, true, true, true, true]),
@@ -167,7 +341,13 @@ def tagBlock4 : Block where
     (.positive, [true, true, true, true, true, true, true, true, true]),
     (.negative, [true, true, true, true, true, true, true, true, true]),
     (.nonnegative, [true, true, true, true, true, true, true, true, true]),
-    (.nonpositive, [true, true, true, true, true, true, true, true, true])
+    (.nonpositive, [true, true, true, true, true, true, true, true, true]),
+    (.min 255, [true, true, true, true, true, true, true, true, true]),
+    (.max 255, [true, true, true, true, true, true, true, true, true]),
+    (.gt 3, [true, true, true, true, true, true, true, true, true]),
+    (.gte 3, [true, true, true, true, true, true, true, true, true]),
+    (.lt 5, [true, true, true, true, true, true, true, true, true]),
+    (.lte 5, [true, true, true, true, true, true, true, true, true])
   ]
   pairs := [
     (.required, .min 3, [true, true, true, true, true, true, true, true, true], [true, true, true, true, true, true, true, true, true]),
@@ -193,220 +373,138 @@ def tagBlock4 : Block where
     (.nonnegative, .nonpositive, [true, true, true, true, true, true, true, true, true], [true, true, true, true, true, true, true, true, true])
   ]
 
-def tagBlock5 : Block where
-  fty := ⟨false, .int64⟩
-  probes := [.num (-4), .num (-2), .num 0, .num 2, .num 4, .num 6, .num 8, .num 10, .num 12]
-  singles := [
-    (.required, [true, true, true, true, true, true, true, true, true]),
-    (.min 3, [false, false, false, false, false, true, true, true, true]),
-    (.max 5, [true, true, true, true, true, true, true, true, false]),
-    (.positive, [false, false, false, true, true, true, true, true, true]),
-    (.negative, [true, true, false, false, false, false, false, false, false]),
-    (.nonnegative, [true, true, true, true, true, true, true, true, true]),
-    (.nonpositive, [true, true, true, true, true, true, true, true, true])
-  ]
-  pairs := [
-    (.required, .min 3, [false, false, false, false, false, true, true, true, true], [false, false, false, false, false, true, true, true, true]),
-    (.required, .max 5, [true, true, true, true, true, true, true, true, false], [true, true, true, true, true, true, true, true, false]),
-    (.required, .positive, [false, false, false, true, true, true, true, true, true], [false, false, false, true, true, true, true, true, true]),
-    (.required, .negative, [true, true, false, false, false, false, false, false, false], [true, true, false, false, false, false, false, false, false]),
-    (.required, .nonnegative, [true, true, true, true, true, true, true, true, true], [true, true, true, true, true, true, true, true, true]),
-    (.required, .nonpositive, [true, true, true, true, true, true, true, true, true], [true, true, true, true, true, true, true, true, true]),
-    (.min 3, .max 5, [false, false, false, false, false, true, true, true, false], [false, false, false, false, false, true, true, true, false]),
-    (.min 3, .positive, [false, false, false, false, false, true, true, true, true], [false, false, false, false, false, true, true, true, true]),
-    (.min 3, .negative, [false, false, false, false, false, false, false, false, false], [false, false, false, false, false, false, false, false, false]),
-    (.min 3, .nonnegative, [false, false, false, false, false, true, true, true, true], [false, false, false, false, false, true, true, true, true]),
-    (.min 3, .nonpositive, [false, false, false, false, false, true, true, true, true], [false, false, false, false, false, true, true, true, true]),
-    (.max 5, .positive, [false, false, false, true, true, true, true, true, false], [false, false, false, true, true, true, true, true, false]),
-    (.max 5, .negative, [true, true, false, false, false, false, false, false, false], [true, true, false, false, false, false, false, false, false]),
-    (.max 5, .nonnegative, [true, true, true, true, true, true, true, true, false], [true, true, true, true, true, true, true, true, false]),
-    (.max 5, .nonpositive, [true, true, true, true, true, true, true, true, false], [true, true, true, true, true, true, true, true, false]),
-    (.positive, .negative, [false, false, false, false, false, false, false, false, false], [false, false, false, false, false, false, false, false, false]),
-    (.positive, .nonnegative, [false, false, false, true, true, true, true, true, true], [false, false, false, true, true, true, true, true, true]),
-    (.positive, .nonpositive, [false, false, false, true, true, true, true, true, true], [false, false, false, true, true, true, true, true, true]),
-    (.negative, .nonnegative, [true, true, false, false, false, false, false, false, false], [true, true, false, false, false, false, false, false, false]),
-    (.negative, .nonpositive, [true, true, false, false, false, false, false, false, false], [true, true, false, false, false, false, false, false, false]),
-    (.nonnegative, .nonpositive, [true, true, true, true, true, true, true, true, true], [true, true, true, true, true, true, true, true, true])
-  ]
-
-def tagBlock6 : Block where
-  fty := ⟨false, .uint⟩
-  probes := [.num 0, .num 2, .num 4, .num 6, .num 8, .num 10, .num 12]
-  singles := [
-    (.required, [true, true, true, true, true, true, true]),
-    (.min 3, [true, true, true, true, true, true, true]),
-    (.max 5, [true, true, true, true, true, true, true]),
-    (.positive, [true, true, true, true, true, true, true]),
-    (.negative, [true, true, true, true, true, true, true]),
-    (.nonnegative, [true, true, true, true, true, true, true]),
-    (.nonpositive, [true, true, true, true, true, true, true])
-  ]
-  pairs := [
-    (.required, .min 3, [true, true, true, true, true, true, true], [true, true, true, true, true, true, true]),
-    (.required, .max 5, [true, true, true, true, true, true, true], [true, true, true, true, true, true, true]),
-    (.required, .positive, [true, true, true, true, true, true, true], [true, true, true, true, true, true, true]),
-    (.required, .negative, [true, true, true, true, true, true, true], [true, true, true, true, true, true, true]),
-    (.required, .nonnegative, [true, true, true, true, true, true, true], [true, true, true, true, true, true, true]),
-    (.required, .nonpositive, [true, true, true, true, true, true, true], [true, true, true, true, true, true, true]),
-    (.min 3, .max 5, [true, true, true, true, true, true, true], [true, true, true, true, true, true, true]),
-    (.min 3, .positive, [true, true, true, true, true, true, true], [true, true, true, true, true, true, true]),
-    (.min 3, .negative, [true, true, true, true, true, true, true], [true, true, true, true, true, true, true]),
-    (.min 3, .nonnegative, [true, true, true, true, true, true, true], [true, true, true, true, true, true, true]),
-    (.min 3, .nonpositive, [true, true, true, true, true, true, true], [true, true, true, true, true, true, true]),
-    (.max 5, .positive, [true, true, true, true, true, true, true], [true, true, true, true, true, true, true]),
-    (.max 5, .negative, [true, true, true, true, true, true, true], [true, true, true, true, true, true, true]),
-    (.max 5, .nonnegative, [true, true, true, true, true, true, true], [true, true, true, true, true, true, true]),
-    (.max 5, .nonpositive, [true, true, true, true, true, true, true], [true, true, true, true, true, true, true]),
-    (.positive, .negative, [true, true, true, true, true, true, true], [true, true, true, true, true, true, true]),
-    (.positive, .nonnegative, [true, true, true, true, true, true, true], [true, true, true, true, true, true, true]),
-    (.positive, .nonpositive, [true, true, true, true, true, true, true], [true, true, true, true, true, true, true]),
-    (.negative, .nonnegative, [true, true, true, true, true, true, true], [true, true, true, true, true, true, true]),
-    (.negative, .nonpositive, [true, true, true, true, true, true, true], [true, true, true, true, true, true, true]),
-    (.nonnegative, .nonpositive, [true, true, true, true, true, true, true], [true, true, true, true, true, true, true])
-  ]
-
-def tagBlock7 : Block where
-  fty := ⟨false, .uint8⟩
-  probes := [.num 0, .num 2, .num 4, .num 6, .num 8, .num 10, .num 12]
-  singles := [
-    (.required, [true, true, true, true, true, true, true]),
-    (.min 3, [true, true, true, true, true, true, true]),
-    (.max 5, [true, true, true, true, true, true, true]),
-    (.positive, [true, true, true, true, true, true, true]),
-    (.negative, [true, true, true, true, true, true, true]),
-    (.nonnegative, [true, true, true, true, true, true, true]),
-    (.nonpositive, [true, true, true, true, true, true, true])
-  ]
-  pairs := [
-    (.required, .min 3, [true, true, true, true, true, true, true], [true, true, true, true, true, true, true]),
-    (.required, .max 5, [true, true, true, true, true, true, true], [true, true, true, true, true, true, true]),
-    (.required, .positive, [true, true, true, true, true, true, true], [true, true, true, true, true, true, true]),
-    (.required, .negative, [true, true, true, true, true, true, true], [true, true, true, true, true, true, true]),
-    (.required, .nonnegative, [true, true, true, true, true, true, true], [true, true, true, true, true, true, true]),
-    (.required, .nonpositive, [true, true, true, true, true, true, true], [true, true, true, true, true, true, true]),
-    (.min 3, .max 5, [true, true, true, true, true, true, true], [true, true, true, true, true, true, true]),
-    (.min 3, .positive, [true, true, true, true, true, true, true], [true, true, true, true, true, true, true]),
-    (.min 3, .negative, [true, true, true, true, true, true, true], [true, true, true, true, true, true, true]),
-    (.min 3, .nonnegative, [true, true, true, true, true, true, true], [true, true, true, true, true, true, true]),
-    (.min 3, .nonpositive, [true, true, true, true, true, true, true], [true, true, true, true, true, true, true]),
-    (.max 5, .positive, [true, true, true, true, true, true, true], [true, true, true, true, true, true, true]),
-    (.max 5, .negative, [true, true, true, true, true, true, true], [true, true, true, true, true, true, true]),
-    (.max 5, .nonnegative, [true, true, true, true, true, true, true], [true, true, true, true, true, true, true]),
-    (.max 5, .nonpositive, [true, true, true, true, true, true, true], [true, true, true, true, true, true, true]),
-    (.positive, .negative, [true, true, true, true, true, true, true], [true, true, true, true, true, true, true]),
-    (.positive, .nonnegative, [true, true, true, true, true, true, true], [true, true, true, true, true, true, true]),
-    (.positive, .nonpositive, [true, true, true, true, true, true, true], [true, true, true, true, true, true, true]),
-    (.negative, .nonnegative, [true, true, true, true, true, true, true], [true, true, true, true, true, true, true]),
-    (.negative, .nonpositive, [true, true, true, true, true, true, true], [true, true, true, true, true, true, true]),
-    (.nonnegative, .nonpositive, [true, true, true, true, true, true, true], [true, true, true, true, true, true, true])
-  ]
-
 def tagBlock8 : Block where
   fty := ⟨false, .uint16⟩
-  probes := [.num 0, .num 2, .num 4, .num 6, .num 8, .num 10, .num 12]
+  probes := [.num 0, .num 2, .num 4, .num 6, .num 8, .num 10, .num 12, .num 131068, .num 131070]
   singles := [
-    (.required, [true, true, true, true, true, true, true]),
-    (.min 3, [true, true, true, true, true, true, true]),
-    (.max 5, [true, true, true, true, true, true, true]),
-    (.positive, [true, true, true, true, true, true, true]),
-    (.negative, [true, true, true, true, true, true, true]),
-    (.nonnegative, [true, true, true, true, true, true, true]),
-    (.nonpositive, [true, true, true, true, true, true, true])
+    (.required, [true, true, true, true, true, true, true, true, true]),
+    (.min 3, [true, true, true, true, true, true, true, true, true]),
+    (.max 5, [true, true, true, true, true, true, true, true, true]),
+    (.positive, [true, true, true, true, true, true, true, true, true]),
+    (.negative, [true, true, true, true, true, true, true, true, true]),
+    (.nonnegative, [true, true, true, true, true, true, true, true, true]),
+    (.nonpositive, [true, true, true, true, true, true, true, true, true]),
+    (.min 65535, [true, true, true, true, true, true, true, true, true]),
+    (.max 65535, [true, true, true, true, true, true, true, true, true]),
+    (.gt 3, [true, true, true, true, true, true, true, true, true]),
+    (.gte 3, [true, true, true, true, true, true, true, true, true]),
+    (.lt 5, [true, true, true, true, true, true, true, true, true]),
+    (.lte 5, [true, true, true, true, true, true, true, true, true])
   ]
   pairs := [
-    (.required, .min 3, [true, true, true, true, true, true, true], [true, true, true, true, true, true, true]),
-    (.required, .max 5, [true, true, true, true, true, true, true], [true, true, true, true, true, true, true]),
-    (.required, .positive, [true, true, true, true, true, true, true], [true, true, true, true, true, true, true]),
-    (.required, .negative, [true, true, true, true, true, true, true], [true, true, true, true, true, true, true]),
-    (.required, .nonnegative, [true, true, true, true, true, true, true], [true, true, true, true, true, true, true]),
-    (.required, .nonpositive, [true, true, true, true, true, true, true], [true, true, true, true, true, true, true]),
-    (.min 3, .max 5, [true, true, true, true, true, true, true], [true, true, true, true, true, true, true]),
-    (.min 3, .positive, [true, true, true, true, true, true, true], [true, true, true, true, true, true, true]),
-    (.min 3, .negative, [true, true, true, true, true, true, true], [true, true, true, true, true, true, true]),
-    (.min 3, .nonnegative, [true, true, true, true, true, true, true], [true, true, true, true, true, true, true]),
-    (.min 3, .nonpositive, [true, true, true, true, true, true, true], [true, true, true, true, true, true, true]),
-    (.max 5, .positive, [true, true, true, true, true, true, true], [true, true, true, true, true, true, true]),
-    (.max 5, .negative, [true, true, true, true, true, true, true], [true, true, true, true, true, true, true]),
-    (.max 5, .nonnegative, [true, true, true, true, true, true, true], [true, true, true, true, true, true, true]),
-    (.max 5, .nonpositive, [true, true, true, true, true, true, true], [true, true, true, true, true, true, true]),
-    (.positive, .negative, [true, true, true, true, true, true, true], [true, true, true, true, true, true, true]),
-    (.positive, .nonnegative, [true, true, true, true, true, true, true], [true, true, true, true, true, true, true]),
-    (.positive, .nonpositive, [true, true, true, true, true, true, true], [true, true, true, true, true, true, true]),
-    (.negative, .nonnegative, [true, true, true, true, true, true, true], [true, true, true, true, true, true, true]),
-    (.negative, .nonpositive, [true, true, true, true, true, true, true], [true, true, true, true, true, true, true]),
-    (.nonnegative, .nonpositive, [true, true, true, true, true, true, true], [true, true, true, true, true, true, true])
+    (.required, .min 3, [true, true, true, true, true, true, true, true, true], [true, true, true, true, true, true, true, true, true]),
+    (.required, .max 5, [true, true, true, true, true, true, true, true, true], [true, true, true, true, true, true, true, true, true]),
+    (.required, .positive, [true, true, true, true, true, true, true, true, true], [true, true, true, true, true, true, true, true, true]),
+    (.required, .negative, [true, true, true, true, true, true, true, true, true], [true, true, true, true, true, true, true, true, true]),
+    (.required, .nonnegative, [true, true, true, true, true, true, true, true, true], [true, true, true, true, true, true, true, true, true]),
+    (.required, .nonpositive, [true, true, true, true, true, true, true, true, true], [true, true, true, true, true, true, true, true, true]),
+    (.min 3, .max 5, [true, true, true, true, true, true, true, true, true], [true, true, true, true, true, true, true, true, true]),
+    (.min 3, .positive, [true, true, true, true, true, true, true, true, true], [true, true, true, true, true, true, true, true, true]),
+    (.min 3, .negative, [true, true, true, true, true, true, true, true, true], [true, true, true, true, true, true, true, true, true]),
+    (.min 3, .nonnegative, [true, true, true, true, true, true, true, true, true], [true, true, true, true, true, true, true, true, true]),
+    (.min 3, .nonpositive, [true, true, true, true, true, true, true, true, true], [true, true, true, true, true, true, true, true, true]),
+    (.max 5, .positive, [true, true, true, true, true, true, true, true, true], [true, true, true, true, true, true, true, true, true]),
+    (.max 5, .negative, [true, true, true, true, true, true, true, true, true], [true, true, true, true, true, true, true, true, true]),
+    (.max 5, .nonnegative, [true, true, true, true, true, true, true, true, true], [true, true, true, true, true, true, true, true, true]),
+    (.max 5, .nonpositive, [true, true, true, true, true, true, true, true, true], [true, true, true, true, true, true, true, true, true]),
+    (.positive, .negative, [true, true, true, true, true, true, true, true, true], [true, true, true, true, true, true, true, true, true]),
+    (.positive, .nonnegative, [true, true, true, true, true, true, true, true, true], [true, true, true, true, true, true, true, true, true]),
+    (.positive, .nonpositive, [true, true, true, true, true, true, true, true, true], [true, true, true, true, true, true, true, true, true]),
+    (.negative, .nonnegative, [true, true, true, true, true, true, true, true, true], [true, true, true, true, true, true, true, true, true]),
+    (.negative, .nonpositive, [true, true, true, true, true, true, true, true, true], [true, true, true, true, true, true, true, true, true]),
+    (.nonnegative, .nonpositive, [true, true, true, true, true, true, true, true, true], [true, true, true, true, true, true, true, true, true])
   ]
 
 def tagBlock9 : Block where
   fty := ⟨false, .uint32⟩
-  probes := [.num 0, .num 2, .num 4, .num 6, .num 8, .num 10, .num 12]
+  probes := [.num 0, .num 2, .num 4, .num 6, .num 8, .num 10, .num 12, .num 8589934588, .num 8589934590]
   singles := [
-    (.required, [true, true, true, true, true, true, true]),
-    (.min 3, [true, true, true, true, true, true, true]),
-    (.max 5, [true, true, true, true, true, true, true]),
-    (.positive, [true, true, true, true, true, true, true]),
-    (.negative, [true, true, true, true, true, true, true]),
-    (.nonnegative, [true, true, true, true, true, true, true]),
-    (.nonpositive, [true, true, true, true, true, true, true])
+    (.required, [true, true, true, true, true, true, true, true, true]),
+    (.min 3, [true, true, true, true, true, true, true, true, true]),
+    (.max 5, [true, true, true, true, true, true, true, true, true]),
+    (.positive, [true, true, true, true, true, true, true, true, true]),
+    (.negative, [true, true, true, true, true, true, true, true, true]),
+    (.nonnegative, [true, true, true, true, true, true, true, true, true]),
+    (.nonpositive, [true, true, true, true, true, true, true, true, true]),
+    (.min 4294967295, [true, true, true, true, true, true, true, true, true]),
+    (.max 4294967295, [true, true, true, true, true, true, true, true, true]),
+    (.gt 3, [true, true, true, true, true, true, true, true, true]),
+    (.gte 3, [true, true, true, true, true, true, true, true, true]),
+    (.lt 5, [true, true, true, true, true, true, true, true, true]),
+    (.lte 5, [true, true, true, true, true, true, true, true, true])
   ]
   pairs := [
-    (.required, .min 3, [true, true, true, true, true, true, true], [true, true, true, true, true, true, true]),
-    (.required, .max 5, [true, true, true, true, true, true, true], [true, true, true, true, true, true, true]),
-    (.required, .positive, [true, true, true, true, true, true, true], [true, true, true, true, true, true, true]),
-    (.required, .negative, [true, true, true, true, true, true, true], [true, true, true, true, true, true, true]),
-    (.required, .nonnegative, [true, true, true, true, true, true, true], [true, true, true, true, true, true, true]),
-    (.required, .nonpositive, [true, true, true, true, true, true, true], [true, true, true, true, true, true, true]),
-    (.min 3, .max 5, [true, true, true, true, true, true, true], [true, true, true, true, true, true, true]),
-    (.min 3, .positive, [true, true, true, true, true, true, true], [true, true, true, true, true, true, true]),
-    (.min 3, .negative, [true, true, true, true, true, true, true], [true, true, true, true, true, true, true]),
-    (.min 3, .nonnegative, [true, true, true, true, true, true, true], [true, true, true, true, true, true, true]),
-    (.min 3, .nonpositive, [true, true, true, true, true, true, true], [true, true, true, true, true, true, true]),
-    (.max 5, .positive, [true, true, true, true, true, true, true], [true, true, true, true, true, true, true]),
-    (.max 5, .negative, [true, true, true, true, true, true, true], [true, true, true, true, true, true, true]),
-    (.max 5, .nonnegative, [true, true, true, true, true, true, true], [true, true, true, true, true, true, true]),
-    (.max 5, .nonpositive, [true, true, true, true, true, true, true], [true, true, true, true, true, true, true]),
-    (.positive, .negative, [true, true, true, true, true, true, true], [true, true, true, true, true, true, true]),
-    (.positive, .nonnegative, [true, true, true, true, true, true, true], [true, true, true, true, true, true, true]),
-    (.positive, .nonpositive, [true, true, true, true, true, true, true], [true, true, true, true, true, true, true]),
-    (.negative, .nonnegative, [true, true, true, true, true, true, true], [true, true, true, true, true, true, true]),
-    (.negative, .nonpositive, [true, true, true, true, true, true, true], [true, true, true, true, true, true, true]),
-    (.nonnegative, .nonpositive, [true, true, true, true, true, true, true], [true, true, true, true, true, true, true])
+    (.required, .min 3, [true, true, true, true, true, true, true, true, true], [true, true, true, true, true, true, true, true, true]),
+    (.required, .max 5, [true, true, true, true, true, true, true, true, true], [true, true, true, true, true, true, true, true, true]),
+    (.required, .positive, [true, true, true, true, true, true, true, true, true], [true, true, true, true, true, true, true, true, true]),
+    (.required, .negative, [true, true, true, true, true, true, true, true, true], [true, true, true, true, true, true, true, true, true]),
+    (.required, .nonnegative, [true, true, true, true, true, true, true, true, true], [true, true, true, true, true, true, true, true, true]),
+    (.required, .nonpositive, [true, true, true, true, true, true, true, true, true], [true, true, true, true, true, true, true, true, true]),
+    (.min 3, .max 5, [true, true, true, true, true, true, true, true, true], [true, true, true, true, true, true, true, true, true]),
+    (.min 3, .positive, [true, true, true, true, true, true, true, true, true], [true, true, true, true, true, true, true, true, true]),
+    (.min 3, .negative, [true, true, true, true, true, true, true, true, true], [true, true, true, true, true, true, true, true, true]),
+    (.min 3, .nonnegative, [true, true, true, true, true, true, true, true, true], [true, true, true, true, true, true, true, true, true]),
+    (.min 3, .nonpositive, [true, true, true, true, true, true, true, true, true], [true, true, true, true, true, true, true, true, true]),
+    (.max 5, .positive, [true, true, true, true, true, true, true, true, true], [true, true, true, true, true, true, true, true, true]),
+    (.max 5, .negative, [true, true, true, true, true, true, true, true, true], [true, true, true, true, true, true, true, true, true]),
+    (.max 5, .nonnegative, [true, true, true, true, true, true, true, true, true], [true, true, true, true, true, true, true, true, true]),
+    (.max 5, .nonpositive, [true, true, true, true, true, true, true, true, true], [true, true, true, true, true, true, true, true, true]),
+    (.positive, .negative, [true, true, true, true, true, true, true, true, true], [true, true, true, true, true, true, true, true, true]),
+    (.positive, .nonnegative, [true, true, true, true, true, true, true, true, true], [true, true, true, true, true, true, true, true, true]),
+    (.positive, .nonpositive, [true, true, true, true, true, true, true, true, true], [true, true, true, true, true, true, true, true, true]),
+    (.negative, .nonnegative, [true, true, true, true, true, true, true, true, true], [true, true, true, true, true, true, true, true, true]),
+    (.negative, .nonpositive, [true, true, true, true, true, true, true, true, true], [true, true, true, true, true, true, true, true, true]),
+    (.nonnegative, .nonpositive, [true, true, true, true, true, true, true, true, true], [true, true, true, true, true, true, true, true, true])
   ]
 
 def tagBlock10 : Block where
   fty := ⟨false, .uint64⟩
-  probes := [.num 0, .num 2, .num 4, .num 6, .num 8, .num 10, .num 12]
+  probes := [.num 0, .num 2, .num 4, .num 6, .num 8, .num 10, .num 12, .num 18014398509481984, .num 18014398509481986, .num 18014398509481988, .num 18446744073709551612, .num 18446744073709551614, .num 18446744073709551616, .num 36893488147419103228, .num 36893488147419103230]
   singles := [
-    (.required, [true, true, true, true, true, true, true]),
-    (.min 3, [true, true, true, true, true, true, true]),
-    (.max 5, [true, true, true, true, true, true, true]),
-    (.positive, [true, true, true, true, true, true, true]),
-    (.negative, [true, true, true, true, true, true, true]),
-    (.nonnegative, [true, true, true, true, true, true, true]),
-    (.nonpositive, [true, true, true, true, true, true, true])
+    (.required, [true, true, true, true, true, true, true, true, true, true, true, true, true, true, true]),
+    (.min 3, [true, true, true, true, true, true, true, true, true, true, true, true, true, true, true]),
+    (.max 5, [true, true, true, true, true, true, true, true, true, true, true, true, true, true, true]),
+    (.positive, [true, true, true, true, true, true, true, true, true, true, true, true, true, true, true]),
+    (.negative, [true, true, true, true, true, true, true, true, true, true, true, true, true, true, true]),
+    (.nonnegative, [true, true, true, true, true, true, true, true, true, true, true, true, true, true, true]),
+    (.nonpositive, [true, true, true, true, true, true, true, true, true, true, true, true, true, true, true]),
+    (.min 9007199254740993, [true, true, true, true, true, true, true, true, true, true, true, true, true, true, true]),
+    (.max 9007199254740993, [true, true, true, true, true, true, true, true, true, true, true, true, true, true, true]),
+    (.min 9223372036854775807, [true, true, true, true, true, true, true, true, true, true, true, true, true, true, true]),
+    (.max 9223372036854775807, [true, true, true, true, true, true, true, true, true, true, true, true, true, true, true]),
+    (.min 18446744073709551615, [true, true, true, true, true, true, true, true, true, true, true, true, true, true, true]),
+    (.max 18446744073709551615, [true, true, true, true, true, true, true, true, true, true, true, true, true, true, true]),
+    (.gt 9007199254740993, [true, true, true, true, true, true, true, true, true, true, true, true, true, true, true]),
+    (.gte 9007199254740993, [true, true, true, true, true, true, true, true, true, true, true, true, true, true, true]),
+    (.lt 9007199254740993, [true, true, true, true, true, true, true, true, true, true, true, true, true, true, true]),
+    (.lte 9007199254740993, [true, true, true, true, true, true, true, true, true, true, true, true, true, true, true]),
+    (.gt 3, [true, true, true, true, true, true, true, true, true, true, true, true, true, true, true]),
+    (.gte 3, [true, true, true, true, true, true, true, true, true, true, true, true, true, true, true]),
+    (.lt 5, [true, true, true, true, true, true, true, true, true, true, true, true, true, true, true]),
+    (.lte 5, [true, true, true, true, true, true, true, true, true, true, true, true, true, true, true])
   ]
   pairs := [
-    (.required, .min 3, [true, true, true, true, true, true, true], [true, true, true, true, true, true, true]),
-    (.required, .max 5, [true, true, true, true, true, true, true], [true, true, true, true, true, true, true]),
-    (.required, .positive, [true, true, true, true, true, true, true], [true, true, true, true, true, true, true]),
-    (.required, .negative, [true, true, true, true, true, true, true], [true, true, true, true, true, true, true]),
-    (.required, .nonnegative, [true, true, true, true, true, true, true], [true, true, true, true, true, true, true]),
-    (.required, .nonpositive, [true, true, true, true, true, true, true], [true, true, true, true, true, true, true]),
-    (.min 3, .max 5, [true, true, true, true, true, true, true], [true, true, true, true, true, true, true]),
-    (.min 3, .positive, [true, true, true, true, true, true, true], [true, true, true, true, true, true, true]),
-    (.min 3, .negative, [true, true, true, true, true, true, true], [true, true, true, true, true, true, true]),
-    (.min 3, .nonnegative, [true, true, true, true, true, true, true], [true, true, true, true, true, true, true]),
-    (.min 3, .nonpositive, [true, true, true, true, true, true, true], [true, true, true, true, true, true, true]),
-    (.max 5, .positive, [true, true, true, true, true, true, true], [true, true, true, true, true, true, true]),
-    (.max 5, .negative, [true, true, true, true, true, true, true], [true, true, true, true, true, true, true]),
-    (.max 5, .nonnegative, [true, true, true, true, true, true, true], [true, true, true, true, true, true, true]),
-    (.max 5, .nonpositive, [true, true, true, true, true, true, true], [true, true, true, true, true, true, true]),
-    (.positive, .negative, [true, true, true, true, true, true, true], [true, true, true, true, true, true, true]),
-    (.positive, .nonnegative, [true, true, true, true, true, true, true], [true, true, true, true, true, true, true]),
-    (.positive, .nonpositive, [true, true, true, true, true, true, true], [true, true, true, true, true, true, true]),
-    (.negative, .nonnegative, [true, true, true, true, true, true, true], [true, true, true, true, true, true, true]),
-    (.negative, .nonpositive, [true, true, true, true, true, true, true], [true, true, true, true, true, true, true]),
-    (.nonnegative, .nonpositive, [true, true, true, true, true, true, true], [true, true, true, true, true, true, true])
+    (.required, .min 3, [true, true, true, true, true, true, true, true, true, true, true, true, true, true, true], [true, true, true, true, true, true, true, true, true, true, true, true, true, true, true]),
+    (.required, .max 5, [true, true, true, true, true, true, true, true, true, true, true, true, true, true, true], [true, true, true, true, true, true, true, true, true, true, true, true, true, true, true]),
+    (.required, .positive, [true, true, true, true, true, true, true, true, true, true, true, true, true, true, true], [true, true, true, true, true, true, true, true, true, true, true, true, true, true, true]),
+    (.required, .negative, [true, true, true, true, true, true, true, true, true, true, true, true, true, true, true], [true, true, true, true, true, true, true, true, true, true, true, true, true, true, true]),
+    (.required, .nonnegative, [true, true, true, true, true, true, true, true, true, true, true, true, true, true, true], [true, true, true, true, true, true, true, true, true, true, true, true, true, true, true]),
+    (.required, .nonpositive, [true, true, true, true, true, true, true, true, true, true, true, true, true, true, true], [true, true, true, true, true, true, true, true, true, true, true, true, true, true, true]),
+    (.min 3, .max 5, [true, true, true, true, true, true, true, true, true, true, true, true, true, true, true], [true, true, true, true, true, true, true, true, true, true, true, true, true, true, true]),
+    (.min 3, .positive, [true, true, true, true, true, true, true, true, true, true, true, true, true, true, true], [true, true, true, true, true, true, true, true, true, true, true, true, true, true, true]),
+    (.min 3, .negative, [true, true, true, true, true, true, true, true, true, true, true, true, true, true, true], [true, true, true, true, true, true, true, true, true, true, true, true, true, true, true]),
+    (.min 3, .nonnegative, [true, true, true, true, true, true, true, true, true, true, true, true, true, true, true], [true, true, true, true, true, true, true, true, true, true, true, true, true, true, true]),
+    (.min 3, .nonpositive, [true, true, true, true, true, true, true, true, true, true, true, true, true, true, true], [true, true, true, true, true, true, true, true, true, true, true, true, true, true, true]),
+    (.max 5, .positive, [true, true, true, true, true, true, true, true, true, true, true, true, true, true, true], [true, true, true, true, true, true, true, true, true, true, true, true, true, true, true]),
+    (.max 5, .negative, [true, true, true, true, true, true, true, true, true, true, true, true, true, true, true], [true, true, true, true, true, true, true, true, true, true, true, true, true, true, true]),
+    (.max 5, .nonnegative, [true, true, true, true, true, true, true, true, true, true, true, true, true, true, true], [true, true, true, true, true, true, true, true, true, true, true, true, true, true, true]),
+    (.max 5, .nonpositive, [true, true, true, true, true, true, true, true, true, true, true, true, true, true, true], [true, true, true, true, true, true, true, true, true, true, true, true, true, true, true]),
+    (.positive, .negative, [true, true, true, true, true, true, true, true, true, true, true, true, true, true, true], [true, true, true, true, true, true, true, true, true, true, true, true, true, true, true]),
+    (.positive, .nonnegative, [true, true, true, true, true, true, true, true, true, true, true, true, true, true, true], [true, true, true, true, true, true, true, true, true, true, true, true, true, true, true]),
+    (.positive, .nonpositive, [true, true, true, true, true, true, true, true, true, true, true, true, true, true, true], [true, true, true, true, true, true, true, true, true, true, true, true, true, true, true]),
+    (.negative, .nonnegative, [true, true, true, true, true, true, true, true, true, true, true, true, true, true, true], [true, true, true, true, true, true, true, true, true, true, true, true, true, true, true]),
+    (.negative, .nonpositive, [true, true, true, true, true, true, true, true, true, true, true, true, true, true, true], [true, true, true, true, true, true, true, true, true, true, true, true, true, true, true]),
+    (.nonnegative, .nonpositive, [true, true, true, true, true, true, true, true, true, true, true, true, true, true, true], [true, true, true, true, true, true, true, true, true, true, true, true, true, true, true])
   ]
 
 def tagBlock11 : Block where
@@ -419,7 +517,11 @@ def tagBlock11 : Block where
     (.positive, [false, false, false, false, true, true, true, true, true, true, true, true, true, true]),
     (.negative, [true, true, true, false, false, false, false, false, false, false, false, false, false, false]),
     (.nonnegative, [true, true, true, true, true, true, true, true, true, true, true, true, true, true]),
-    (.nonpositive, [true, true, true, true, true, true, true, true, true, true, true, true, true, true])
+    (.nonpositive, [true, true, true, true, true, true, true, true, true, true, true, true, true, true]),
+    (.gt 3, [false, false, false, false, false, false, false, false, false, true, true, true, true, true]),
+    (.gte 3, [false, false, false, false, false, false, false, false, true, true, true, true, true, true]),
+    (.lt 5, [true, true, true, true, true, true, true, true, true, true, true, false, false, false]),
+    (.lte 5, [true, true, true, true, true, true, true, true, true, true, true, true, false, false])
   ]
   pairs := [
     (.required, .min 3, [false, false, false, false, false, false, false, false, true, true, true, true, true, true], [false, false, false, false, false, false, false, false, true, true, true, true, true, true]),
@@ -455,7 +557,11 @@ def tagBlock12 : Block where
     (.positive, [false, false, false, false, true, true, true, true, true, true, true, true, true, true]),
     (.negative, [true, true, true, false, false, false, false, false, false, false, false, false, false, false]),
     (.nonnegative, [true, true, true, true, true, true, true, true, true, true, true, true, true, true]),
-    (.nonpositive, [true, true, true, true, true, true, true, true, true, true, true, true, true, true])
+    (.nonpositive, [true, true, true, true, true, true, true, true, true, true, true, true, true, true]),
+    (.gt 3, [false, false, false, false, false, false, false, false, false, true, true, true, true, true]),
+    (.gte 3, [false, false, false, false, false, false, false, false, true, true, true, true, true, true]),
+    (.lt 5, [true, true, true, true, true, true, true, true, true, true, true, false, false, false]),
+    (.lte 5, [true, true, true, true, true, true, true, true, true, true, true, true, false, false])
   ]
   pairs := [
     (.required, .min 3, [false, false, false, false, false, false, false, false, true, true, true, true, true, true], [false, false, false, false, false, false, false, false, true, true, true, true, true, true]),
@@ -829,151 +935,289 @@ def tagBlock30 : Block where
 
 def tagBlock31 : Block where
   fty := ⟨true, .int⟩
-  probes := [.nil, .num (-4), .num (-2), .num 0, .num 2, .num 4, .num 6, .num 8, .num 10, .num 12]
+  probes := [.nil, .num (-4), .num (-2), .num 0, .num 2, .num 4, .num 6, .num 8, .num 10, .num 12, .num 18014398509481984, .num 18014398509481986, .num 18014398509481988, .num 18446744073709551612, .num 18446744073709551614, .num (-18446744073709551616), .num (-18446744073709551614)]
   singles := [
-    (.required, [false, true, true, true, true, true, true, true, true, true]),
-    (.min 3, [true, true, true, true, true, true, true, true, true, true]),
-    (.max 5, [true, true, true, true, true, true, true, true, true, true]),
-    (.positive, [true, true, true, true, true, true, true, true, true, true]),
-    (.negative, [true, true, true, true, true, true, true, true, true, true]),
-    (.nonnegative, [true, true, true, true, true, true, true, true, true, true]),
-    (.nonpositive, [true, true, true, true, true, true, true, true, true, true])
+    (.required, [false, true, true, true, true, true, true, true, true, true, true, true, true, true, true, true, true]),
+    (.min 3, [true, true, true, true, true, true, true, true, true, true, true, true, true, true, true, true, true]),
+    (.max 5, [true, true, true, true, true, true, true, true, true, true, true, true, true, true, true, true, true]),
+    (.positive, [true, true, true, true, true, true, true, true, true, true, true, true, true, true, true, true, true]),
+    (.negative, [true, true, true, true, true, true, true, true, true, true, true, true, true, true, true, true, true]),
+    (.nonnegative, [true, true, true, true, true, true, true, true, true, true, true, true, true, true, true, true, true]),
+    (.nonpositive, [true, true, true, true, true, true, true, true, true, true, true, true, true, true, true, true, true]),
+    (.min 9007199254740993, [true, true, true, true, true, true, true, true, true, true, true, true, true, true, true, true, true]),
+    (.max 9007199254740993, [true, true, true, true, true, true, true, true, true, true, true, true, true, true, true, true, true]),
+    (.min 9223372036854775807, [true, true, true, true, true, true, true, true, true, true, true, true, true, true, true, true, true]),
+    (.max 9223372036854775807, [true, true, true, true, true, true, true, true, true, true, true, true, true, true, true, true, true]),
+    (.min (-9223372036854775808), [true, true, true, true, true, true, true, true, true, true, true, true, true, true, true, true, true]),
+    (.max (-9223372036854775808), [true, true, true, true, true, true, true, true, true, true, true, true, true, true, true, true, true]),
+    (.gt 9007199254740993, [true, true, true, true, true, true, true, true, true, true, true, true, true, true, true, true, true]),
+    (.gte 9007199254740993, [true, true, true, true, true, true, true, true, true, true, true, true, true, true, true, true, true]),
+    (.lt 9007199254740993, [true, true, true, true, true, true, true, true, true, true, true, true, true, true, true, true, true]),
+    (.lte 9007199254740993, [true, true, true, true, true, true, true, true, true, true, true, true, true, true, true, true, true]),
+    (.gt 3, [true, true, true, true, true, true, true, true, true, true, true, true, true, true, true, true, true]),
+    (.gte 3, [true, true, true, true, true, true, true, true, true, true, true, true, true, true, true, true, true]),
+    (.lt 5, [true, true, true, true, true, true, true, true, true, true, true, true, true, true, true, true, true]),
+    (.lte 5, [true, true, true, true, true, true, true, true, true, true, true, true, true, true, true, true, true])
   ]
   pairs := [
-    (.required, .min 3, [false, true, true, true, true, true, true, true, true, true], [false, true, true, true, true, true, true, true, true, true]),
-    (.required, .max 5, [false, true, true, true, true, true, true, true, true, true], [false, true, true, true, true, true, true, true, true, true]),
-    (.required, .positive, [false, true, true, true, true, true, true, true, true, true], [false, true, true, true, true, true, true, true, true, true]),
-    (.required, .negative, [false, true, true, true, true, true, true, true, true, true], [false, true, true, true, true, true, true, true, true, true]),
-    (.required, .nonnegative, [false, true, true, true, true, true, true, true, true, true], [false, true, true, true, true, true, true, true, true, true]),
-    (.required, .nonpositive, [false, true, true, true, true, true, true, true, true, true], [false, true, true, true, true, true, true, true, true, true]),
-    (.min 3, .max 5, [true, true, true, true, true, true, true, true, true, true], [true, true, true, true, true, true, true, true, true, true]),
-    (.min 3, .positive, [true, true, true, true, true, true, true, true, true, true], [true, true, true, true, true, true, true, true, true, true]),
-    (.min 3, .negative, [true, true, true, true, true, true, true, true, true, true], [true, true, true, true, true, true, true, true, true, true]),
-    (.min 3, .nonnegative, [true, true, true, true, true, true, true, true, true, true], [true, true, true, true, true, true, true, true, true, true]),
-    (.min 3, .nonpositive, [true, true, true, true, true, true, true, true, true, true], [true, true, true, true, true, true, true, true, true, true]),
-    (.max 5, .positive, [true, true, true, true, true, true, true, true, true, true], [true, true, true, true, true, true, true, true, true, true]),
-    (.max 5, .negative, [true, true, true, true, true, true, true, true, true, true], [true, true, true, true, true, true, true, true, true, true]),
-    (.max 5, .nonnegative, [true, true, true, true, true, true, true, true, true, true], [true, true, true, true, true, true, true, true, true, true]),
-    (.max 5, .nonpositive, [true, true, true, true, true, true, true, true, true, true], [true, true, true, true, true, true, true, true, true, true]),
-    (.positive, .negative, [true, true, true, true, true, true, true, true, true, true], [true, true, true, true, true, true, true, true, true, true]),
-    (.positive, .nonnegative, [true, true, true, true, true, true, true, true, true, true], [true, true, true, true, true, true, true, true, true, true]),
-    (.positive, .nonpositive, [true, true, true, true, true, true, true, true, true, true], [true, true, true, true, true, true, true, true, true, true]),
-    (.negative, .nonnegative, [true, true, true, true, true, true, true, true, true, true], [true, true, true, true, true, true, true, true, true, true]),
-    (.negative, .nonpositive, [true, true, true, true, true, true, true, true, true, true], [true, true, true, true, true, true, true, true, true, true]),
-    (.nonnegative, .nonpositive, [true, true, true, true, true, true, true, true, true, true], [true, true, true, true, true, true, true, true, true, true])
+    (.required, .min 3, [false, true, true, true, true, true, true, true, true, true, true, true, true, true, true, true, true], [false, true, true, true, true, true, true, true, true, true, true, true, true, true, true, true, true]),
+    (.required, .max 5, [false, true, true, true, true, true, true, true, true, true, true, true, true, true, true, true, true], [false, true, true, true, true, true, true, true, true, true, true, true, true, true, true, true, true]),
+    (.required, .positive, [false, true, true, true, true, true, true, true, true, true, true, true, true, true, true, true, true], [false, true, true, true, true, true, true, true, true, true, true, true, true, true, true, true, true]),
+    (.required, .negative, [false, true, true, true, true, true, true, true, true, true, true, true, true, true, true, true, true], [false, true, true, true, true, true, true, true, true, true, true, true, true, true, true, true, true]),
+    (.required, .nonnegative, [false, true, true, true, true, true, true, true, true, true, true, true, true, true, true, true, true], [false, true, true, true, true, true, true, true, true, true, true, true, true, true, true, true, true]),
+    (.required, .nonpositive, [false, true, true, true, true, true, true, true, true, true, true, true, true, true, true, true, true], [false, true, true, true, true, true, true, true, true, true, true, true, true, true, true, true, true]),
+    (.min 3, .max 5, [true, true, true, true, true, true, true, true, true, true, true, true, true, true, true, true, true], [true, true, true, true, true, true, true, true, true, true, true, true, true, true, true, true, true]),
+    (.min 3, .positive, [true, true, true, true, true, true, true, true, true, true, true, true, true, true, true, true, true], [true, true, true, true, true, true, true, true, true, true, true, true, true, true, true, true, true]),
+    (.min 3, .negative, [true, true, true, true, true, true, true, true, true, true, true, true, true, true, true, true, true], [true, true, true, true, true, true, true, true, true, true, true, true, true, true, true, true, true]),
+    (.min 3, .nonnegative, [true, true, true, true, true, true, true, true, true, true, true, true, true, true, true, true, true], [true, true, true, true, true, true, true, true, true, true, true, true, true, true, true, true, true]),
+    (.min 3, .nonpositive, [true, true, true, true, true, true, true, true, true, true, true, true, true, true, true, true, true], [true, true, true, true, true, true, true, true, true, true, true, true, true, true, true, true, true]),
+    (.max 5, .positive, [true, true, true, true, true, true, true, true, true, true, true, true, true, true, true, true, true], [true, true, true, true, true, true, true, true, true, true, true, true, true, true, true, true, true]),
+    (.max 5, .negative, [true, true, true, true, true, true, true, true, true, true, true, true, true, true, true, true, true], [true, true, true, true, true, true, true, true, true, true, true, true, true, true, true, true, true]),
+    (.max 5, .nonnegative, [true, true, true, true, true, true, true, true, true, true, true, true, true, true, true, true, true], [true, true, true, true, true, true, true, true, true, true, true, true, true, true, true, true, true]),
+    (.max 5, .nonpositive, [true, true, true, true, true, true, true, true, true, true, true, true, true, true, true, true, true], [true, true, true, true, true, true, true, true, true, true, true, true, true, true, true, true, true]),
+    (.positive, .negative, [true, true, true, true, true, true, true, true, true, true, true, true, true, true, true, true, true], [true, true, true, true, true, true, true, true, true, true, true, true, true, true, true, true, true]),
+    (.positive, .nonnegative, [true, true, true, true, true, true, true, true, true, true, true, true, true, true, true, true, true], [true, true, true, true, true, true, true, true, true, true, true, true, true, true, true, true, true]),
+    (.positive, .nonpositive, [true, true, true, true, true, true, true, true, true, true, true, true, true, true, true, true, true], [true, true, true, true, true, true, true, true, true, true, true, true, true, true, true, true, true]),
+    (.negative, .nonnegative, [true, true, true, true, true, true, true, true, true, true, true, true, true, true, true, true, true], [true, true, true, true, true, true, true, true, true, true, true, true, true, true, true, true, true]),
+    (.negative, .nonpositive, [true, true, true, true, true, true, true, true, true, true, true, true, true, true, true, true, true], [true, true, true, true, true, true, true, true, true, true, true, true, true, true, true, true, true]),
+    (.nonnegative, .nonpositive, [true, true, true, true, true, true, true, true, true, true, true, true, true, true, true, true, true], [true, true, true, true, true, true, true, true, true, true, true, true, true, true, true, true, true])
   ]
 
 def tagBlock32 : Block where
   fty := ⟨true, .int8⟩
-  probes := [.nil, .num (-4), .num (-2), .num 0, .num 2, .num 4, .num 6, .num 8, .num 10, .num 12]
+  probes := [.nil, .num (-4), .num (-2), .num 0, .num 2, .num 4, .num 6, .num 8, .num 10, .num 12, .num 252, .num 254, .num (-256), .num (-254)]
   singles := [
-    (.required, [false, true, true, true, true, true, true, true, true, true]),
-    (.min 3, [true, true, true, true, true, true, true, true, true, true]),
-    (.max 5, [true, true, true, true, true, true, true, true, true, true]),
-    (.positive, [true, true, true, true, true, true, true, true, true, true]),
-    (.negative, [true, true, true, true, true, true, true, true, true, true]),
-    (.nonnegative, [true, true, true, true, true, true, true, true, true, true]),
-    (.nonpositive, [true, true, true, true, true, true, true, true, true, true])
+    (.required, [false, true, true, true, true, true, true, true, true, true, true, true, true, true]),
+    (.min 3, [true, true, true, true, true, true, true, true, true, true, true, true, true, true]),
+    (.max 5, [true, true, true, true, true, true, true, true, true, true, true, true, true, true]),
+    (.positive, [true, true, true, true, true, true, true, true, true, true, true, true, true, true]),
+    (.negative, [true, true, true, true, true, true, true, true, true, true, true, true, true, true]),
+    (.nonnegative, [true, true, true, true, true, true, true, true, true, true, true, true, true, true]),
+    (.nonpositive, [true, true, true, true, true, true, true, true, true, true, true, true, true, true]),
+    (.min 127, [true, true, true, true, true, true, true, true, true, true, true, true, true, true]),
+    (.max 127, [true, true, true, true, true, true, true, true, true, true, true, true, true, true]),
+    (.min (-128), [true, true, true, true, true, true, true, true, true, true, true, true, true, true]),
+    (.max (-128), [true, true, true, true, true, true, true, true, true, true, true, true, true, true]),
+    (.gt 3, [true, true, true, true, true, true, true, true, true, true, true, true, true, true]),
+    (.gte 3, [true, true, true, true, true, true, true, true, true, true, true, true, true, true]),
+    (.lt 5, [true, true, true, true, true, true, true, true, true, true, true, true, true, true]),
+    (.lte 5, [true, true, true, true, true, true, true, true, true, true, true, true, true, true])
   ]
   pairs := [
-    (.required, .min 3, [false, true, true, true, true, true, true, true, true, true], [false, true, true, true, true, true, true, true, true, true]),
-    (.required, .max 5, [false, true, true, true, true, true, true, true, true, true], [false, true, true, true, true, true, true, true, true, true]),
-    (.required, .positive, [false, true, true, true, true, true, true, true, true, true], [false, true, true, true, true, true, true, true, true, true]),
-    (.required, .negative, [false, true, true, true, true, true, true, true, true, true], [false, true, true, true, true, true, true, true, true, true]),
-    (.required, .nonnegative, [false, true, true, true, true, true, true, true, true, true], [false, true, true, true, true, true, true, true, true, true]),
-    (.required, .nonpositive, [false, true, true, true, true, true, true, true, true, true], [false, true, true, true, true, true, true, true, true, true]),
-    (.min 3, .max 5, [true, true, true, true, true, true, true, true, true, true], [true, true, true, true, true, true, true, true, true, true]),
-    (.min 3, .positive, [true, true, true, true, true, true, true, true, true, true], [true, true, true, true, true, true, true, true, true, true]),
-    (.min 3, .negative, [true, true, true, true, true, true, true, true, true, true], [true, true, true, true, true, true, true, true, true, true]),
-    (.min 3, .nonnegative, [true, true, true, true, true, true, true, true, true, true], [true, true, true, true, true, true, true, true, true, true]),
-    (.min 3, .nonpositive, [true, true, true, true, true, true, true, true, true, true], [true, true, true, true, true, true, true, true, true, true]),
-    (.max 5, .positive, [true, true, true, true, true, true, true, true, true, true], [true, true, true, true, true, true, true, true, true, true]),
-    (.max 5, .negative, [true, true, true, true, true, true, true, true, true, true], [true, true, true, true, true, true, true, true, true, true]),
-    (.max 5, .nonnegative, [true, true, true, true, true, true, true, true, true, true], [true, true, true, true, true, true, true, true, true, true]),
-    (.max 5, .nonpositive, [true, true, true, true, true, true, true, true, true, true], [true, true, true, true, true, true, true, true, true, true]),
-    (.positive, .negative, [true, true, true, true, true, true, true, true, true, true], [true, true, true, true, true, true, true, true, true, true]),
-    (.positive, .nonnegative, [true, true, true, true, true, true, true, true, true, true], [true, true, true, true, true, true, true, true, true, true]),
-    (.positive, .nonpositive, [true, true, true, true, true, true, true, true, true, true], [true, true, true, true, true, true, true, true, true, true]),
-    (.negative, .nonnegative, [true, true, true, true, true, true, true, true, true, true], [true, true, true, true, true, true, true, true, true, true]),
-    (.negative, .nonpositive, [true, true, true, true, true, true, true, true, true, true], [true, true, true, true, true, true, true, true, true, true]),
-    (.nonnegative, .nonpositive, [true, true, true, true, true, true, true, true, true, true], [true, true, true, true, true, true, true, true, true, true])
+    (.required, .min 3, [false, true, true, true, true, true, true, true, true, true, true, true, true, true], [false, true, true, true, true, true, true, true, true, true, true, true, true, true]),
+    (.required, .max 5, [false, true, true, true, true, true, true, true, true, true, true, true, true, true], [false, true, true, true, true, true, true, true, true, true, true, true, true, true]),
+    (.required, .positive, [false, true, true, true, true, true, true, true, true, true, true, true, true, true], [false, true, true, true, true, true, true, true, true, true, true, true, true, true]),
+    (.required, .negative, [false, true, true, true, true, true, true, true, true, true, true, true, true, true], [false, true, true, true, true, true, true, true, true, true, true, true, true, true]),
+    (.required, .nonnegative, [false, true, true, true, true, true, true, true, true, true, true, true, true, true], [false, true, true, true, true, true, true, true, true, true, true, true, true, true]),
+    (.required, .nonpositive, [false, true, true, true, true, true, true, true, true, true, true, true, true, true], [false, true, true, true, true, true, true, true, true, true, true, true, true, true]),
+    (.min 3, .max 5, [true, true, true, true, true, true, true, true, true, true, true, true, true, true], [true, true, true, true, true, true, true, true, true, true, true, true, true, true]),
+    (.min 3, .positive, [true, true, true, true, true, true, true, true, true, true, true, true, true, true], [true, true, true, true, true, true, true, true, true, true, true, true, true, true]),
+    (.min 3, .negative, [true, true, true, true, true, true, true, true, true, true, true, true, true, true], [true, true, true, true, true, true, true, true, true, true, true, true, true, true]),
+    (.min 3, .nonnegative, [true, true, true, true, true, true, true, true, true, true, true, true, true, true], [true, true, true, true, true, true, true, true, true, true, true, true, true, true]),
+    (.min 3, .nonpositive, [true, true, true, true, true, true, true, true, true, true, true, true, true, true], [true, true, true, true, true, true, true, true, true, true, true, true, true, true]),
+    (.max 5, .positive, [true, true, true, true, true, true, true, true, true, true, true, true, true, true], [true, true, true, true, true, true, true, true, true, true, true, true, true, true]),
+    (.max 5, .negative, [true, true, true, true, true, true, true, true, true, true, true, true, true, true], [true, true, true, true, true, true, true, true, true, true, true, true, true, true]),
+    (.max 5, .nonnegative, [true, true, true, true, true, true, true, true, true, true, true, true, true, true], [true, true, true, true, true, true, true, true, true, true, true, true, true, true]),
+    (.max 5, .nonpositive, [true, true, true, true, true, true, true, true, true, true, true, true, true, true], [true, true, true, true, true, true, true, true, true, true, true, true, true, true]),
+    (.positive, .negative, [true, true, true, true, true, true, true, true, true, true, true, true, true, true], [true, true, true, true, true, true, true, true, true, true, true, true, true, true]),
+    (.positive, .nonnegative, [true, true, true, true, true, true, true, true, true, true, true, true, true, true], [true, true, true, true, true, true, true, true, true, true, true, true, true, true]),
+    (.positive, .nonpositive, [true, true, true, true, true, true, true, true, true, true, true, true, true, true], [true, true, true, true, true, true, true, true, true, true, true, true, true, true]),
+    (.negative, .nonnegative, [true, true, true, true, true, true, true, true, true, true, true, true, true, true], [true, true, true, true, true, true, true, true, true, true, true, true, true, true]),
+    (.negative, .nonpositive, [true, true, true, true, true, true, true, true, true, true, true, true, true, true], [true, true, true, true, true, true, true, true, true, true, true, true, true, true]),
+    (.nonnegative, .nonpositive, [true, true, true, true, true, true, true, true, true, true, true, true, true, true], [true, true, true, true, true, true, true, true, true, true, true, true, true, true])
   ]
 
 def tagBlock33 : Block where
   fty := ⟨true, .int16⟩
-  probes := [.nil, .num (-4), .num (-2), .num 0, .num 2, .num 4, .num 6, .num 8, .num 10, .num 12]
+  probes := [.nil, .num (-4), .num (-2), .num 0, .num 2, .num 4, .num 6, .num 8, .num 10, .num 12, .num 65532, .num 65534, .num (-65536), .num (-65534)]
   singles := [
-    (.required, [false, true, true, true, true, true, true, true, true, true]),
-    (.min 3, [true, true, true, true, true, true, true, true, true, true]),
-    (.max 5, [true, true, true, true, true, true, true, true, true, true]),
-    (.positive, [true, true, true, true, true, true, true, true, true, true]),
-    (.negative, [true, true, true, true, true, true, true, true, true, true]),
-    (.nonnegative, [true, true, true, true, true, true, true, true, true, true]),
-    (.nonpositive, [true, true, true, true, true, true, true, true, true, true])
+    (.required, [false, true, true, true, true, true, true, true, true, true, true, true, true, true]),
+    (.min 3, [true, true, true, true, true, true, true, true, true, true, true, true, true, true]),
+    (.max 5, [true, true, true, true, true, true, true, true, true, true, true, true, true, true]),
+    (.positive, [true, true, true, true, true, true, true, true, true, true, true, true, true, true]),
+    (.negative, [true, true, true, true, true, true, true, true, true, true, true, true, true, true]),
+    (.nonnegative, [true, true, true, true, true, true, true, true, true, true, true, true, true, true]),
+    (.nonpositive, [true, true, true, true, true, true, true, true, true, true, true, true, true, true]),
+    (.min 32767, [true, true, true, true, true, true, true, true, true, true, true, true, true, true]),
+    (.max 32767, [true, true, true, true, true, true, true, true, true, true, true, true, true, true]),
+    (.min (-32768), [true, true, true, true, true, true, true, true, true, true, true, true, true, true]),
+    (.max (-32768), [true, true, true, true, true, true, true, true, true, true, true, true, true, true]),
+    (.gt 3, [true, true, true, true, true, true, true, true, true, true, true, true, true, true]),
+    (.gte 3, [true, true, true, true, true, true, true, true, true, true, true, true, true, true]),
+    (.lt 5, [true, true, true, true, true, true, true, true, true, true, true, true, true, true]),
+    (.lte 5, [true, true, true, true, true, true, true, true, true, true, true, true, true, true])
   ]
   pairs := [
-    (.required, .min 3, [false, true, true, true, true, true, true, true, true, true], [false, true, true, true, true, true, true, true, true, true]),
-    (.required, .max 5, [false, true, true, true, true, true, true, true, true, true], [false, true, true, true, true, true, true, true, true, true]),
-    (.required, .positive, [false, true, true, true, true, true, true, true, true, true], [false, true, true, true, true, true, true, true, true, true]),
-    (.required, .negative, [false, true, true, true, true, true, true, true, true, true], [false, true, true, true, true, true, true, true, true, true]),
-    (.required, .nonnegative, [false, true, true, true, true, true, true, true, true, true], [false, true, true, true, true, true, true, true, true, true]),
-    (.required, .nonpositive, [false, true, true, true, true, true, true, true, true, true], [false, true, true, true, true, true, true, true, true, true]),
-    (.min 3, .max 5, [true, true, true, true, true, true, true, true, true, true], [true, true, true, true, true, true, true, true, true, true]),
-    (.min 3, .positive, [true, true, true, true, true, true, true, true, true, true], [true, true, true, true, true, true, true, true, true, true]),
-    (.min 3, .negative, [true, true, true, true, true, true, true, true, true, true], [true, true, true, true, true, true, true, true, true, true]),
-    (.min 3, .nonnegative, [true, true, true, true, true, true, true, true, true, true], [true, true, true, true, true, true, true, true, true, true]),
-    (.min 3, .nonpositive, [true, true, true, true, true, true, true, true, true, true], [true, true, true, true, true, true, true, true, true, true]),
-    (.max 5, .positive, [true, true, true, true, true, true, true, true, true, true], [true, true, true, true, true, true, true, true, true, true]),
-    (.max 5, .negative, [true, true, true, true, true, true, true, true, true, true], [true, true, true, true, true, true, true, true, true, true]),
-    (.max 5, .nonnegative, [true, true, true, true, true, true, true, true, true, true], [true, true, true, true, true, true, true, true, true, true]),
-    (.max 5, .nonpositive, [true, true, true, true, true, true, true, true, true, true], [true, true, true, true, true, true, true, true, true, true]),
-    (.positive, .negative, [true, true, true, true, true, true, true, true, true, true], [true, true, true, true, true, true, true, true, true, true]),
-    (.positive, .nonnegative, [true, true, true, true, true, true, true, true, true, true], [true, true, true, true, true, true, true, true, true, true]),
-    (.positive, .nonpositive, [true, true, true, true, true, true, true, true, true, true], [true, true, true, true, true, true, true, true, true, true]),
-    (.negative, .nonnegative, [true, true, true, true, true, true, true, true, true, true], [true, true, true, true, true, true, true, true, true, true]),
-    (.negative, .nonpositive, [true, true, true, true, true, true, true, true, true, true], [true, true, true, true, true, true, true, true, true, true]),
-    (.nonnegative, .nonpositive, [true, true, true, true, true, true, true, true, true, true], [true, true, true, true, true, true, true, true, true, true])
+    (.required, .min 3, [false, true, true, true, true, true, true, true, true, true, true, true, true, true], [false, true, true, true, true, true, true, true, true, true, true, true, true, true]),
+    (.required, .max 5, [false, true, true, true, true, true, true, true, true, true, true, true, true, true], [false, true, true, true, true, true, true, true, true, true, true, true, true, true]),
+    (.required, .positive, [false, true, true, true, true, true, true, true, true, true, true, true, true, true], [false, true, true, true, true, true, true, true, true, true, true, true, true, true]),
+    (.required, .negative, [false, true, true, true, true, true, true, true, true, true, true, true, true, true], [false, true, true, true, true, true, true, true, true, true, true, true, true, true]),
+    (.required, .nonnegative, [false, true, true, true, true, true, true, true, true, true, true, true, true, true], [false, true, true, true, true, true, true, true, true, true, true, true, true, true]),
+    (.required, .nonpositive, [false, true, true, true, true, true, true, true, true, true, true, true, true, true], [false, true, true, true, true, true, true, true, true, true, true, true, true, true]),
+    (.min 3, .max 5, [true, true, true, true, true, true, true, true, true, true, true, true, true, true], [true, true, true, true, true, true, true, true, true, true, true, true, true, true]),
+    (.min 3, .positive, [true, true, true, true, true, true, true, true, true, true, true, true, true, true], [true, true, true, true, true, true, true, true, true, true, true, true, true, true]),
+    (.min 3, .negative, [true, true, true, true, true, true, true, true, true, true, true, true, true, true], [true, true, true, true, true, true, true, true, true, true, true, true, true, true]),
+    (.min 3, .nonnegative, [true, true, true, true, true, true, true, true, true, true, true, true, true, true], [true, true, true, true, true, true, true, true, true, true, true, true, true, true]),
+    (.min 3, .nonpositive, [true, true, true, true, true, true, true, true, true, true, true, true, true, true], [true, true, true, true, true, true, true, true, true, true, true, true, true, true]),
+    (.max 5, .positive, [true, true, true, true, true, true, true, true, true, true, true, true, true, true], [true, true, true, true, true, true, true, true, true, true, true, true, true, true]),
+    (.max 5, .negative, [true, true, true, true, true, true, true, true, true, true, true, true, true, true], [true, true, true, true, true, true, true, true, true, true, true, true, true, true]),
+    (.max 5, .nonnegative, [true, true, true, true, true, true, true, true, true, true, true, true, true, true], [true, true, true, true, true, true, true, true, true, true, true, true, true, true]),
+    (.max 5, .nonpositive, [true, true, true, true, true, true, true, true, true, true, true, true, true, true], [true, true, true, true, true, true, true, true, true, true, true, true, true, true]),
+    (.positive, .negative, [true, true, true, true, true, true, true, true, true, true, true, true, true, true], [true, true, true, true, true, true, true, true, true, true, true, true, true, true]),
+    (.positive, .nonnegative, [true, true, true, true, true, true, true, true, true, true, true, true, true, true], [true, true, true, true, true, true, true, true, true, true, true, true, true, true]),
+    (.positive, .nonpositive, [true, true, true, true, true, true, true, true, true, true, true, true, true, true], [true, true, true, true, true, true, true, true, true, true, true, true, true, true]),
+    (.negative, .nonnegative, [true, true, true, true, true, true, true, true, true, true, true, true, true, true], [true, true, true, true, true, true, true, true, true, true, true, true, true, true]),
+    (.negative, .nonpositive, [true, true, true, true, true, true, true, true, true, true, true, true, true, true], [true, true, true, true, true, true, true, true, true, true, true, true, true, true]),
+    (.nonnegative, .nonpositive, [true, true, true, true, true, true, true, true, true, true, true, true, true, true], [true, true, true, true, true, true, true, true, true, true, true, true, true, true])
   ]
 
 def tagBlock34 : Block where
   fty := ⟨true, .int32⟩
-  probes := [.nil, .num (-4), .num (-2), .num 0, .num 2, .num 4, .num 6, .num 8, .num 10, .num 12]
+  probes := [.nil, .num (-4), .num (-2), .num 0, .num 2, .num 4, .num 6, .num 8, .num 10, .num 12, .num 4294967292, .num 4294967294, .num (-4294967296), .num (-4294967294)]
   singles := [
-    (.required, [false, true, true, true, true, true, true, true, true, true]),
-    (.min 3, [true, true, true, true, true, true, true, true, true, true]),
-    (.max 5, [true, true, true, true, true, true, true, true, true, true]),
-    (.positive, [true, true, true, true, true, true, true, true, true, true]),
-    (.negative, [true, true, true, true, true, true, true, true, true, true]),
-    (.nonnegative, [true, true, true, true, true, true, true, true, true, true]),
-    (.nonpositive, [true, true, true, true, true, true, true, true, true, true])
+    (.required, [false, true, true, true, true, true, true, true, true, true, true, true, true, true]),
+    (.min 3, [true, true, true, true, true, true, true, true, true, true, true, true, true, true]),
+    (.max 5, [true, true, true, true, true, true, true, true, true, true, true, true, true, true]),
+    (.positive, [true, true, true, true, true, true, true, true, true, true, true, true, true, true]),
+    (.negative, [true, true, true, true, true, true, true, true, true, true, true, true, true, true]),
+    (.nonnegative, [true, true, true, true, true, true, true, true, true, true, true, true, true, true]),
+    (.nonpositive, [true, true, true, true, true, true, true, true, true, true, true, true, true, true]),
+    (.min 2147483647, [true, true, true, true, true, true, true, true, true, true, true, true, true, true]),
+    (.max 2147483647, [true, true, true, true, true, true, true, true, true, true, true, true, true, true]),
+    (.min (-2147483648), [true, true, true, true, true, true, true, true, true, true, true, true, true, true]),
+    (.max (-2147483648), [true, true, true, true, true, true, true, true, true, true, true, true, true, true]),
+    (.gt 3, [true, true, true, true, true, true, true, true, true, true, true, true, true, true]),
+    (.gte 3, [true, true, true, true, true, true, true, true, true, true, true, true, true, true]),
+    (.lt 5, [true, true, true, true, true, true, true, true, true, true, true, true, true, true]),
+    (.lte 5, [true, true, true, true, true, true, true, true, true, true, true, true, true, true])
   ]
   pairs := [
-    (.required, .min 3, [false, true, true, true, true, true, true, true, true, true], [false, true, true, true, true, true, true, true, true, true]),
-    (.required, .max 5, [false, true, true, true, true, true, true, true, true, true], [false, true, true, true, true, true, true, true, true, true]),
-    (.required, .positive, [false, true, true, true, true, true, true, true, true, true], [false, true, true, true, true, true, true, true, true, true]),
-    (.required, .negative, [false, true, true, true, true, true, true, true, true, true], [false, true, true, true, true, true, true, true, true, true]),
-    (.required, .nonnegative, [false, true, true, true, true, true, true, true, true, true], [false, true, true, true, true, true, true, true, true, true]),
-    (.required, .nonpositive, [false, true, true, true, true, true, true, true, true, true], [false, true, true, true, true, true, true, true, true, true]),
-    (.min 3, .max 5, [true, true, true, true, true, true, true, true, true, true], [true, true, true, true, true, true, true, true, true, true]),
-    (.min 3, .positive, [true, true, true, true, true, true, true, true, true, true], [true, true, true, true, true, true, true, true, true, true]),
-    (.min 3, .negative, [true, true, true, true, true, true, true, true, true, true], [true, true, true, true, true, true, true, true, true, true]),
-    (.min 3, .nonnegative, [true, true, true, true, true, true, true, true, true, true], [true, true, true, true, true, true, true, true, true, true]),
-    (.min 3, .nonpositive, [true, true, true, true, true, true, true, true, true, true], [true, true, true, true, true, true, true, true, true, true]),
-    (.max 5, .positive, [true, true, true, true, true, true, true, true, true, true], [true, true, true, true, true, true, true, true, true, true]),
-    (.max 5, .negative, [true, true, true, true, true, true, true, true, true, true], [true, true, true, true, true, true, true, true, true, true]),
-    (.max 5, .nonnegative, [true, true, true, true, true, true, true, true, true, true], [true, true, true, true, true, true, true, true, true, true]),
-    (.max 5, .nonpositive, [true, true, true, true, true, true, true, true, true, true], [true, true, true, true, true, true, true, true, true, true]),
-    (.positive, .negative, [true, true, true, true, true, true, true, true, true, true], [true, true, true, true, true, true, true, true, true, true]),
-    (.positive, .nonnegative, [true, true, true, true, true, true, true, true, true, true], [true, true, true, true, true, true, true, true, true, true]),
-    (.positive, .nonpositive, [true, true, true, true, true, true, true, true, true, true], [true, true, true, true, true, true, true, true, true, true]),
-    (.negative, .nonnegative, [true, true, true, true, true, true, true, true, true, true], [true, true, true, true, true, true, true, true, true, true]),
-    (.negative, .nonpositive, [true, true, true, true, true, true, true, true, true, true], [true, true, true, true, true, true, true, true, true, true]),
-    (.nonnegative, .nonpositive, [true, true, true, true, true, true, true, true, true, true], [true, true, true, true, true, true, true, true, true, true])
+    (.required, .min 3, [false, true, true, true, true, true, true, true, true, true, true, true, true, true], [false, true, true, true, true, true, true, true, true, true, true, true, true, true]),
+    (.required, .max 5, [false, true, true, true, true, true, true, true, true, true, true, true, true, true], [false, true, true, true, true, true, true, true, true, true, true, true, true, true]),
+    (.required, .positive, [false, true, true, true, true, true, true, true, true, true, true, true, true, true], [false, true, true, true, true, true, true, true, true, true, true, true, true, true]),
+    (.required, .negative, [false, true, true, true, true, true, true, true, true, true, true, true, true, true], [false, true, true, true, true, true, true, true, true, true, true, true, true, true]),
+    (.required, .nonnegative, [false, true, true, true, true, true, true, true, true, true, true, true, true, true], [false, true, true, true, true, true, true, true, true, true, true, true, true, true]),
+    (.required, .nonpositive, [false, true, true, true, true, true, true, true, true, true, true, true, true, true], [false, true, true, true, true, true, true, true, true, true, true, true, true, true]),
+    (.min 3, .max 5, [true, true, true, true, true, true, true, true, true, true, true, true, true, true], [true, true, true, true, true, true, true, true, true, true, true, true, true, true]),
+    (.min 3, .positive, [true, true, true, true, true, true, true, true, true, true, true, true, true, true], [true, true, true, true, true, true, true, true, true, true, true, true, true, true]),
+    (.min 3, .negative, [true, true, true, true, true, true, true, true, true, true, true, true, true, true], [true, true, true, true, true, true, true, true, true, true, true, true, true, true]),
+    (.min 3, .nonnegative, [true, true, true, true, true, true, true, true, true, true, true, true, true, true], [true, true, true, true, true, true, true, true, true, true, true, true, true, true]),
+    (.min 3, .nonpositive, [true, true, true, true, true, true, true, true, true, true, true, true, true, true], [true, true, true, true, true, true, true, true, true, true, true, true, true, true]),
+    (.max 5, .positive, [true, true, true, true, true, true, true, true, true, true, true, true, true, true], [true, true, true, true, true, true, true, true, true, true, true, true, true, true]),
+    (.max 5, .negative, [true, true, true, true, true, true, true, true, true, true, true, true, true, true], [true, true, true, true, true, true, true, true, true, true, true, true, true, true]),
+    (.max 5, .nonnegative, [true, true, true, true, true, true, true, true, true, true, true, true, true, true], [true, true, true, true, true, true, true, true, true, true, true, true, true, true]),
+    (.max 5, .nonpositive, [true, true, true, true, true, true, true, true, true, true, true, true, true, true], [true, true, true, true, true, true, true, true, true, true, true, true, true, true]),
+    (.positive, .negative, [true, true, true, true, true, true, true, true, true, true, true, true, true, true], [true, true, true, true, true, true, true, true, true, true, true, true, true, true]),
+    (.positive, .nonnegative, [true, true, true, true, true, true, true, true, true, true, true, true, true, true], [true, true, true, true, true, true, true, true, true, true, true, true, true, true]),
+    (.positive, .nonpositive, [true, true, true, true, true, true, true, true, true, true, true, true, true, true], [true, true, true, true, true, true, true, true, true, true, true, true, true, true]),
+    (.negative, .nonnegative, [true, true, true, true, true, true, true, true, true, true, true, true, true, true], [true, true, true, true, true, true, true, true, true, true, true, true, true, true]),
+    (.negative, .nonpositive, [true, true, true, true, true, true, true, true, true, true, true, true, true, true], [true, true, true, true, true, true, true, true, true, true, true, true, true, true]),
+    (.nonnegative, .nonpositive, [true, true, true, true, true, true, true, true, true, true, true, true, true, true], [true, true, true, true, true, true, true, true, true, true, true, true, true, true])
   ]
 
 def tagBlock35 : Block where
   fty := ⟨true, .int64⟩
-  probes := [.nil, .num (-4), .num (-2), .num 0, .num 2, .num 4, .num 6, .num 8, .num 10, .num 12]
+  probes := [.nil, .num (-4), .num (-2), .num 0, .num 2, .num 4, .num 6, .num 8, .num 10, .num 12, .num 18014398509481984, .num 18014398509481986, .num 18014398509481988, .num 18446744073709551612, .num 18446744073709551614, .num (-18446744073709551616), .num (-18446744073709551614)]
+  singles := [
+    (.required, [false, true, true, true, true, true, true, true, true, true, true, true, true, true, true, true, true]),
+    (.min 3, [true, true, true, true, true, true, true, true, true, true, true, true, true, true, true, true, true]),
+    (.max 5, [true, true, true, true, true, true, true, true, true, true, true, true, true, true, true, true, true]),
+    (.positive, [true, true, true, true, true, true, true, true, true, true, true, true, true, true, true, true, true]),
+    (.negative, [true, true, true, true, true, true, true, true, true, true, true, true, true, true, true, true, true]),
+    (.nonnegative, [true, true, true, true, true, true, true, true, true, true, true, true, true, true, true, true, true]),
+    (.nonpositive, [true, true, true, true, true, true, true, true, true, true, true, true, true, true, true, true, true]),
+    (.min 9007199254740993, [true, true, true, true, true, true, true, true, true, true, true, true, true, true, true, true, true]),
+    (.max 9007199254740993, [true, true, true, true, true, true, true, true, true, true, true, true, true, true, true, true, true]),
+    (.min 9223372036854775807, [true, true, true, true, true, true, true, true, true, true, true, true, true, true, true, true, true]),
+    (.max 9223372036854775807, [true, true, true, true, true, true, true, true, true, true, true, true, true, true, true, true, true]),
+    (.min (-9223372036854775808), [true, true, true, true, true, true, true, true, true, true, true, true, true, true, true, true, true]),
+    (.max (-9223372036854775808), [true, true, true, true, true, true, true, true, true, true, true, true, true, true, true, true, true]),
+    (.gt 9007199254740993, [true, true, true, true, true, true, true, true, true, true, true, true, true, true, true, true, true]),
+    (.gte 9007199254740993, [true, true, true, true, true, true, true, true, true, true, true, true, true, true, true, true, true]),
+    (.lt 9007199254740993, [true, true, true, true, true, true, true, true, true, true, true, true, true, true, true, true, true]),
+    (.lte 9007199254740993, [true, true, true, true, true, true, true, true, true, true, true, true, true, true, true, true, true]),
+    (.gt 3, [true, true, true, true, true, true, true, true, true, true, true, true, true, true, true, true, true]),
+    (.gte 3, [true, true, true, true, true, true, true, true, true, true, true, true, true, true, true, true, true]),
+    (.lt 5, [true, true, true, true, true, true, true, true, true, true, true, true, true, true, true, true, true]),
+    (.lte 5, [true, true, true, true, true, true, true, true, true, true, true, true, true, true, true, true, true])
+  ]
+  pairs := [
+    (.required, .min 3, [false, true, true, true, true, true, true, true, true, true, true, true, true, true, true, true, true], [false, true, true, true, true, true, true, true, true, true, true, true, true, true, true, true, true]),
+    (.required, .max 5, [false, true, true, true, true, true, true, true, true, true, true, true, true, true, true, true, true], [false, true, true, true, true, true, true, true, true, true, true, true, true, true, true, true, true]),
+    (.required, .positive, [false, true, true, true, true, true, true, true, true, true, true, true, true, true, true, true, true], [false, true, true, true, true, true, true, true, true, true, true, true, true, true, true, true, true]),
+    (.required, .negative, [false, true, true, true, true, true, true, true, true, true, true, true, true, true, true, true, true], [false, true, true, true, true, true, true, true, true, true, true, true, true, true, true, true, true]),
+    (.required, .nonnegative, [false, true, true, true, true, true, true, true, true, true, true, true, true, true, true, true, true], [false, true, true, true, true, true, true, true, true, true, true, true, true, true, true, true, true]),
+    (.required, .nonpositive, [false, true, true, true, true, true, true, true, true, true, true, true, true, true, true, true, true], [false, true, true, true, true, true, true, true, true, true, true, true, true, true, true, true, true]),
+    (.min 3, .max 5, [true, true, true, true, true, true, true, true, true, true, true, true, true, true, true, true, true], [true, true, true, true, true, true, true, true, true, true, true, true, true, true, true, true, true]),
+    (.min 3, .positive, [true, true, true, true, true, true, true, true, true, true, true, true, true, true, true, true, true], [true, true, true, true, true, true, true, true, true, true, true, true, true, true, true, true, true]),
+    (.min 3, .negative, [true, true, true, true, true, true, true, true, true, true, true, true, true, true, true, true, true], [true, true, true, true, true, true, true, true, true, true, true, true, true, true, true, true, true]),
+    (.min 3, .nonnegative, [true, true, true, true, true, true, true, true, true, true, true, true, true, true, true, true, true], [true, true, true, true, true, true, true, true, true, true, true, true, true, true, true, true, true]),
+    (.min 3, .nonpositive, [true, true, true, true, true, true, true, true, true, true, true, true, true, true, true, true, true], [true, true, true, true, true, true, true, true, true, true, true, true, true, true, true, true, true]),
+    (.max 5, .positive, [true, true, true, true, true, true, true, true, true, true, true, true, true, true, true, true, true], [true, true, true, true, true, true, true, true, true, true, true, true, true, true, true, true, true]),
+    (.max 5, .negative, [true, true, true, true, true, true, true, true, true, true, true, true, true, true, true, true, true], [true, true, true, true, true, true, true, true, true, true, true, true, true, true, true, true, true]),
+    (.max 5, .nonnegative, [true, true, true, true, true, true, true, true, true, true, true, true, true, true, true, true, true], [true, true, true, true, true, true, true, true, true, true, true, true, true, true, true, true, true]),
+    (.max 5, .nonpositive, [true, true, true, true, true, true, true, true, true, true, true, true, true, true, true, true, true], [true, true, true, true, true, true, true, true, true, true, true, true, true, true, true, true, true]),
+    (.positive, .negative, [true, true, true, true, true, true, true, true, true, true, true, true, true, true, true, true, true], [true, true, true, true, true, true, true, true, true, true, true, true, true, true, true, true, true]),
+    (.positive, .nonnegative, [true, true, true, true, true, true, true, true, true, true, true, true, true, true, true, true, true], [true, true, true, true, true, true, true, true, true, true, true, true, true, true, true, true, true]),
+    (.positive, .nonpositive, [true, true, true, true, true, true, true, true, true, true, true, true, true, true, true, true, true], [true, true, true, true, true, true, true, true, true, true, true, true, true, true, true, true, true]),
+    (.negative, .nonnegative, [true, true, true, true, true, true, true, true, true, true, true, true, true, true, true, true, true], [true, true, true, true, true, true, true, true, true, true, true, true, true, true, true, true, true]),
+    (.negative, .nonpositive, [true, true, true, true, true, true, true, true, true, true, true, true, true, true, true, true, true], [true, true, true, true, true, true, true, true, true, true, true, true, true, true, true, true, true]),
+    (.nonnegative, .nonpositive, [true, true, true, true, true, true, true, true, true, true, true, true, true, true, true, true, true], [true, true, true, true, true, true, true, true, true, true, true, true, true, true, true, true, true])
+  ]
+
+def tagBlock36 : Block where
+  fty := ⟨true, .uint⟩
+  probes := [.nil, .num 0, .num 2, .num 4, .num 6, .num 8, .num 10, .num 12, .num 18014398509481984, .num 18014398509481986, .num 18014398509481988, .num 18446744073709551612, .num 18446744073709551614, .num 18446744073709551616, .num 36893488147419103228, .num 36893488147419103230]
+  singles := [
+    (.required, [false, true, true, true, true, true, true, true, true, true, true, true, true, true, true, true]),
+    (.min 3, [true, true, true, true, true, true, true, true, true, true, true, true, true, true, true, true]),
+    (.max 5, [true, true, true, true, true, true, true, true, true, true, true, true, true, true, true, true]),
+    (.positive, [true, true, true, true, true, true, true, true, true, true, true, true, true, true, true, true]),
+    (.negative, [true, true, true, true, true, true, true, true, true, true, true, true, true, true, true, true]),
+    (.nonnegative, [true, true, true, true, true, true, true, true, true, true, true, true, true, true, true, true]),
+    (.nonpositive, [true, true, true, true, true, true, true, true, true, true, true, true, true, true, true, true]),
+    (.min 9007199254740993, [true, true, true, true, true, true, true, true, true, true, true, true, true, true, true, true]),
+    (.max 9007199254740993, [true, true, true, true, true, true, true, true, true, true, true, true, true, true, true, true]),
+    (.min 9223372036854775807, [true, true, true, true, true, true, true, true, true, true, true, true, true, true, true, true]),
+    (.max 9223372036854775807, [true, true, true, true, true, true, true, true, true, true, true, true, true, true, true, true]),
+    (.min 18446744073709551615, [true, true, true, true, true, true, true, true, true, true, true, true, true, true, true, true]),
+    (.max 18446744073709551615, [true, true, true, true, true, true, true, true, true, true, true, true, true, true, true, true]),
+    (.gt 9007199254740993, [true, true, true, true, true, true, true, true, true, true, true, true, true, true, true, true]),
+    (.gte 9007199254740993, [true, true, true, true, true, true, true, true, true, true, true, true, true, true, true, true]),
+    (.lt 9007199254740993, [true, true, true, true, true, true, true, true, true, true, true, true, true, true, true, true]),
+    (.lte 9007199254740993, [true, true, true, true, true, true, true, true, true, true, true, true, true, true, true, true]),
+    (.gt 3, [true, true, true, true, true, true, true, true, true, true, true, true, true, true, true, true]),
+    (.gte 3, [true, true, true, true, true, true, true, true, true, true, true, true, true, true, true, true]),
+    (.lt 5, [true, true, true, true, true, true, true, true, true, true, true, true, true, true, true, true]),
+    (.lte 5, [true, true, true, true, true, true, true, true, true, true, true, true, true, true, true, true])
+  ]
+  pairs := [
+    (.required, .min 3, [false, true, true, true, true, true, true, true, true, true, true, true, true, true, true, true], [false, true, true, true, true, true, true, true, true, true, true, true, true, true, true, true]),
+    (.required, .max 5, [false, true, true, true, true, true, true, true, true, true, true, true, true, true, true, true], [false, true, true, true, true, true, true, true, true, true, true, true, true, true, true, true]),
+    (.required, .positive, [false, true, true, true, true, true, true, true, true, true, true, true, true, true, true, true], [false, true, true, true, true, true, true, true, true, true, true, true, true, true, true, true]),
+    (.required, .negative, [false, true, true, true, true, true, true, true, true, true, true, true, true, true, true, true], [false, true, true, true, true, true, true, true, true, true, true, true, true, true, true, true]),
+    (.required, .nonnegative, [false, true, true, true, true, true, true, true, true, true, true, true, true, true, true, true], [false, true, true, true, true, true, true, true, true, true, true, true, true, true, true, true]),
+    (.required, .nonpositive, [false, true, true, true, true, true, true, true, true, true, true, true, true, true, true, true], [false, true, true, true, true, true, true, true, true, true, true, true, true, true, true, true]),
+    (.min 3, .max 5, [true, true, true, true, true, true, true, true, true, true, true, true, true, true, true, true], [true, true, true, true, true, true, true, true, true, true, true, true, true, true, true, true]),
+    (.min 3, .positive, [true, true, true, true, true, true, true, true, true, true, true, true, true, true, true, true], [true, true, true, true, true, true, true, true, true, true, true, true, true, true, true, true]),
+    (.min 3, .negative, [true, true, true, true, true, true, true, true, true, true, true, true, true, true, true, true], [true, true, true, true, true, true, true, true, true, true, true, true, true, true, true, true]),
+    (.min 3, .nonnegative, [true, true, true, true, true, true, true, true, true, true, true, true, true, true, true, true], [true, true, true, true, true, true, true, true, true, true, true, true, true, true, true, true]),
+    (.min 3, .nonpositive, [true, true, true, true, true, true, true, true, true, true, true, true, true, true, true, true], [true, true, true, true, true, true, true, true, true, true, true, true, true, true, true, true]),
+    (.max 5, .positive, [true, true, true, true, true, true, true, true, true, true, true, true, true, true, true, true], [true, true, true, true, true, true, true, true, true, true, true, true, true, true, true, true]),
+    (.max 5, .negative, [true, true, true, true, true, true, true, true, true, true, true, true, true, true, true, true], [true, true, true, true, true, true, true, true, true, true, true, true, true, true, true, true]),
+    (.max 5, .nonnegative, [true, true, true, true, true, true, true, true, true, true, true, true, true, true, true, true], [true, true, true, true, true, true, true, true, true, true, true, true, true, true, true, true]),
+    (.max 5, .nonpositive, [true, true, true, true, true, true, true, true, true, true, true, true, true, true, true, true], [true, true, true, true, true, true, true, true, true, true, true, true, true, true, true, true]),
+    (.positive, .negative, [true, true, true, true, true, true, true, true, true, true, true, true, true, true, true, true], [true, true, true, true, true, true, true, true, true, true, true, true, true, true, true, true]),
+    (.positive, .nonnegative, [true, true, true, true, true, true, true, true, true, true, true, true, true, true, true, true], [true, true, true, true, true, true, true, true, true, true, true, true, true, true, true, true]),
+    (.positive, .nonpositive, [true, true, true, true, true, true, true, true, true, true, true, true, true, true, true, true], [true, true, true, true, true, true, true, true, true, true, true, true, true, true, true, true]),
+    (.negative, .nonnegative, [true, true, true, true, true, true, true, true, true, true, true, true, true, true, true, true], [true, true, true, true, true, true, true, true, true, true, true, true, true, true, true, true]),
+    (.negative, .nonpositive, [true, true, true, true, true, true, true, true, true, true, true, true, true, true, true, true], [true, true, true, true, true, true, true, true, true, true, true, true, true, true, true, true]),
+    (.nonnegative, .nonpositive, [true, true, true, true, true, true, true, true, true, true, true, true, true, true, true, true], [true, true, true, true, true, true, true, true, true, true, true, true, true, true, true, true])
+  ]
+
+def tagBlock37 : Block where
+  fty := ⟨true, .uint8⟩
+  probes := [.nil, .num 0, .num 2, .num 4, .num 6, .num 8, .num 10, .num 12, .num 508, .num 510]
   singles := [
     (.required, [false, true, true, true, true, true, true, true, true, true]),
     (.min 3, [true, true, true, true, true, true, true, true, true, true]),
@@ -981,7 +1225,13 @@ def tagBlock35 : Block where
     (.positive, [true, true, true, true, true, true, true, true, true, true]),
     (.negative, [true, true, true, true, true, true, true, true, true, true]),
     (.nonnegative, [true, true, true, true, true, true, true, true, true, true]),
-    (.nonpositive, [true, true, true, true, true, true, true, true, true, true])
+    (.nonpositive, [true, true, true, true, true, true, true, true, true, true]),
+    (.min 255, [true, true, true, true, true, true, true, true, true, true]),
+    (.max 255, [true, true, true, true, true, true, true, true, true, true]),
+    (.gt 3, [true, true, true, true, true, true, true, true, true, true]),
+    (.gte 3, [true, true, true, true, true, true, true, true, true, true]),
+    (.lt 5, [true, true, true, true, true, true, true, true, true, true]),
+    (.lte 5, [true, true, true, true, true, true, true, true, true, true])
   ]
   pairs := [
     (.required, .min 3, [false, true, true, true, true, true, true, true, true, true], [false, true, true, true, true, true, true, true, true, true]),
@@ -1007,184 +1257,138 @@ def tagBlock35 : Block where
     (.nonnegative, .nonpositive, [true, true, true, true, true, true, true, true, true, true], [true, true, true, true, true, true, true, true, true, true])
   ]
 
-def tagBlock36 : Block where
-  fty := ⟨true, .uint⟩
-  probes := [.nil, .num 0, .num 2, .num 4, .num 6, .num 8, .num 10, .num 12]
-  singles := [
-    (.required, [false, true, true, true, true, true, true, true]),
-    (.min 3, [true, true, true, true, true, true, true, true]),
-    (.max 5, [true, true, true, true, true, true, true, true]),
-    (.positive, [true, true, true, true, true, true, true, true]),
-    (.negative, [true, true, true, true, true, true, true, true]),
-    (.nonnegative, [true, true, true, true, true, true, true, true]),
-    (.nonpositive, [true, true, true, true, true, true, true, true])
-  ]
-  pairs := [
-    (.required, .min 3, [false, true, true, true, true, true, true, true], [false, true, true, true, true, true, true, true]),
-    (.required, .max 5, [false, true, true, true, true, true, true, true], [false, true, true, true, true, true, true, true]),
-    (.required, .positive, [false, true, true, true, true, true, true, true], [false, true, true, true, true, true, true, true]),
-    (.required, .negative, [false, true, true, true, true, true, true, true], [false, true, true, true, true, true, true, true]),
-    (.required, .nonnegative, [false, true, true, true, true, true, true, true], [false, true, true, true, true, true, true, true]),
-    (.required, .nonpositive, [false, true, true, true, true, true, true, true], [false, true, true, true, true, true, true, true]),
-    (.min 3, .max 5, [true, true, true, true, true, true, true, true], [true, true, true, true, true, true, true, true]),
-    (.min 3, .positive, [true, true, true, true, true, true, true, true], [true, true, true, true, true, true, true, true]),
-    (.min 3, .negative, [true, true, true, true, true, true, true, true], [true, true, true, true, true, true, true, true]),
-    (.min 3, .nonnegative, [true, true, true, true, true, true, true, true], [true, true, true, true, true, true, true, true]),
-    (.min 3, .nonpositive, [true, true, true, true, true, true, true, true], [true, true, true, true, true, true, true, true]),
-    (.max 5, .positive, [true, true, true, true, true, true, true, true], [true, true, true, true, true, true, true, true]),
-    (.max 5, .negative, [true, true, true, true, true, true, true, true], [true, true, true, true, true, true, true, true]),
-    (.max 5, .nonnegative, [true, true, true, true, true, true, true, true], [true, true, true, true, true, true, true, true]),
-    (.max 5, .nonpositive, [true, true, true, true, true, true, true, true], [true, true, true, true, true, true, true, true]),
-    (.positive, .negative, [true, true, true, true, true, true, true, true], [true, true, true, true, true, true, true, true]),
-    (.positive, .nonnegative, [true, true, true, true, true, true, true, true], [true, true, true, true, true, true, true, true]),
-    (.positive, .nonpositive, [true, true, true, true, true, true, true, true], [true, true, true, true, true, true, true, true]),
-    (.negative, .nonnegative, [true, true, true, true, true, true, true, true], [true, true, true, true, true, true, true, true]),
-    (.negative, .nonpositive, [true, true, true, true, true, true, true, true], [true, true, true, true, true, true, true, true]),
-    (.nonnegative, .nonpositive, [true, true, true, true, true, true, true, true], [true, true, true, true, true, true, true, true])
-  ]
-
-def tagBlock37 : Block where
-  fty := ⟨true, .uint8⟩
-  probes := [.nil, .num 0, .num 2, .num 4, .num 6, .num 8, .num 10, .num 12]
-  singles := [
-    (.required, [false, true, true, true, true, true, true, true]),
-    (.min 3, [true, true, true, true, true, true, true, true]),
-    (.max 5, [true, true, true, true, true, true, true, true]),
-    (.positive, [true, true, true, true, true, true, true, true]),
-    (.negative, [true, true, true, true, true, true, true, true]),
-    (.nonnegative, [true, true, true, true, true, true, true, true]),
-    (.nonpositive, [true, true, true, true, true, true, true, true])
-  ]
-  pairs := [
-    (.required, .min 3, [false, true, true, true, true, true, true, true], [false, true, true, true, true, true, true, true]),
-    (.required, .max 5, [false, true, true, true, true, true, true, true], [false, true, true, true, true, true, true, true]),
-    (.required, .positive, [false, true, true, true, true, true, true, true], [false, true, true, true, true, true, true, true]),
-    (.required, .negative, [false, true, true, true, true, true, true, true], [false, true, true, true, true, true, true, true]),
-    (.required, .nonnegative, [false, true, true, true, true, true, true, true], [false, true, true, true, true, true, true, true]),
-    (.required, .nonpositive, [false, true, true, true, true, true, true, true], [false, true, true, true, true, true, true, true]),
-    (.min 3, .max 5, [true, true, true, true, true, true, true, true], [true, true, true, true, true, true, true, true]),
-    (.min 3, .positive, [true, true, true, true, true, true, true, true], [true, true, true, true, true, true, true, true]),
-    (.min 3, .negative, [true, true, true, true, true, true, true, true], [true, true, true, true, true, true, true, true]),
-    (.min 3, .nonnegative, [true, true, true, true, true, true, true, true], [true, true, true, true, true, true, true, true]),
-    (.min 3, .nonpositive, [true, true, true, true, true, true, true, true], [true, true, true, true, true, true, true, true]),
-    (.max 5, .positive, [true, true, true, true, true, true, true, true], [true, true, true, true, true, true, true, true]),
-    (.max 5, .negative, [true, true, true, true, true, true, true, true], [true, true, true, true, true, true, true, true]),
-    (.max 5, .nonnegative, [true, true, true, true, true, true, true, true], [true, true, true, true, true, true, true, true]),
-    (.max 5, .nonpositive, [true, true, true, true, true, true, true, true], [true, true, true, true, true, true, true, true]),
-    (.positive, .negative, [true, true, true, true, true, true, true, true], [true, true, true, true, true, true, true, true]),
-    (.positive, .nonnegative, [true, true, true, true, true, true, true, true], [true, true, true, true, true, true, true, true]),
-    (.positive, .nonpositive, [true, true, true, true, true, true, true, true], [true, true, true, true, true, true, true, true]),
-    (.negative, .nonnegative, [true, true, true, true, true, true, true, true], [true, true, true, true, true, true, true, true]),
-    (.negative, .nonpositive, [true, true, true, true, true, true, true, true], [true, true, true, true, true, true, true, true]),
-    (.nonnegative, .nonpositive, [true, true, true, true, true, true, true, true], [true, true, true, true, true, true, true, true])
-  ]
-
 def tagBlock38 : Block where
   fty := ⟨true, .uint16⟩
-  probes := [.nil, .num 0, .num 2, .num 4, .num 6, .num 8, .num 10, .num 12]
+  probes := [.nil, .num 0, .num 2, .num 4, .num 6, .num 8, .num 10, .num 12, .num 131068, .num 131070]
   singles := [
-    (.required, [false, true, true, true, true, true, true, true]),
-    (.min 3, [true, true, true, true, true, true, true, true]),
-    (.max 5, [true, true, true, true, true, true, true, true]),
-    (.positive, [true, true, true, true, true, true, true, true]),
-    (.negative, [true, true, true, true, true, true, true, true]),
-    (.nonnegative, [true, true, true, true, true, true, true, true]),
-    (.nonpositive, [true, true, true, true, true, true, true, true])
+    (.required, [false, true, true, true, true, true, true, true, true, true]),
+    (.min 3, [true, true, true, true, true, true, true, true, true, true]),
+    (.max 5, [true, true, true, true, true, true, true, true, true, true]),
+    (.positive, [true, true, true, true, true, true, true, true, true, true]),
+    (.negative, [true, true, true, true, true, true, true, true, true, true]),
+    (.nonnegative, [true, true, true, true, true, true, true, true, true, true]),
+    (.nonpositive, [true, true, true, true, true, true, true, true, true, true]),
+    (.min 65535, [true, true, true, true, true, true, true, true, true, true]),
+    (.max 65535, [true, true, true, true, true, true, true, true, true, true]),
+    (.gt 3, [true, true, true, true, true, true, true, true, true, true]),
+    (.gte 3, [true, true, true, true, true, true, true, true, true, true]),
+    (.lt 5, [true, true, true, true, true, true, true, true, true, true]),
+    (.lte 5, [true, true, true, true, true, true, true, true, true, true])
   ]
   pairs := [
-    (.required, .min 3, [false, true, true, true, true, true, true, true], [false, true, true, true, true, true, true, true]),
-    (.required, .max 5, [false, true, true, true, true, true, true, true], [false, true, true, true, true, true, true, true]),
-    (.required, .positive, [false, true, true, true, true, true, true, true], [false, true, true, true, true, true, true, true]),
-    (.required, .negative, [false, true, true, true, true, true, true, true], [false, true, true, true, true, true, true, true]),
-    (.required, .nonnegative, [false, true, true, true, true, true, true, true], [false, true, true, true, true, true, true, true]),
-    (.required, .nonpositive, [false, true, true, true, true, true, true, true], [false, true, true, true, true, true, true, true]),
-    (.min 3, .max 5, [true, true, true, true, true, true, true, true], [true, true, true, true, true, true, true, true]),
-    (.min 3, .positive, [true, true, true, true, true, true, true, true], [true, true, true, true, true, true, true, true]),
-    (.min 3, .negative, [true, true, true, true, true, true, true, true], [true, true, true, true, true, true, true, true]),
-    (.min 3, .nonnegative, [true, true, true, true, true, true, true, true], [true, true, true, true, true, true, true, true]),
-    (.min 3, .nonpositive, [true, true, true, true, true, true, true, true], [true, true, true, true, true, true, true, true]),
-    (.max 5, .positive, [true, true, true, true, true, true, true, true], [true, true, true, true, true, true, true, true]),
-    (.max 5, .negative, [true, true, true, true, true, true, true, true], [true, true, true, true, true, true, true, true]),
-    (.max 5, .nonnegative, [true, true, true, true, true, true, true, true], [true, true, true, true, true, true, true, true]),
-    (.max 5, .nonpositive, [true, true, true, true, true, true, true, true], [true, true, true, true, true, true, true, true]),
-    (.positive, .negative, [true, true, true, true, true, true, true, true], [true, true, true, true, true, true, true, true]),
-    (.positive, .nonnegative, [true, true, true, true, true, true, true, true], [true, true, true, true, true, true, true, true]),
-    (.positive, .nonpositive, [true, true, true, true, true, true, true, true], [true, true, true, true, true, true, true, true]),
-    (.negative, .nonnegative, [true, true, true, true, true, true, true, true], [true, true, true, true, true, true, true, true]),
-    (.negative, .nonpositive, [true, true, true, true, true, true, true, true], [true, true, true, true, true, true, true, true]),
-    (.nonnegative, .nonpositive, [true, true, true, true, true, true, true, true], [true, true, true, true, true, true, true, true])
+    (.required, .min 3, [false, true, true, true, true, true, true, true, true, true], [false, true, true, true, true, true, true, true, true, true]),
+    (.required, .max 5, [false, true, true, true, true, true, true, true, true, true], [false, true, true, true, true, true, true, true, true, true]),
+    (.required, .positive, [false, true, true, true, true, true, true, true, true, true], [false, true, true, true, true, true, true, true, true, true]),
+    (.required, .negative, [false, true, true, true, true, true, true, true, true, true], [false, true, true, true, true, true, true, true, true, true]),
+    (.required, .nonnegative, [false, true, true, true, true, true, true, true, true, true], [false, true, true, true, true, true, true, true, true, true]),
+    (.required, .nonpositive, [false, true, true, true, true, true, true, true, true, true], [false, true, true, true, true, true, true, true, true, true]),
+    (.min 3, .max 5, [true, true, true, true, true, true, true, true, true, true], [true, true, true, true, true, true, true, true, true, true]),
+    (.min 3, .positive, [true, true, true, true, true, true, true, true, true, true], [true, true, true, true, true, true, true, true, true, true]),
+    (.min 3, .negative, [true, true, true, true, true, true, true, true, true, true], [true, true, true, true, true, true, true, true, true, true]),
+    (.min 3, .nonnegative, [true, true, true, true, true, true, true, true, true, true], [true, true, true, true, true, true, true, true, true, true]),
+    (.min 3, .nonpositive, [true, true, true, true, true, true, true, true, true, true], [true, true, true, true, true, true, true, true, true, true]),
+    (.max 5, .positive, [true, true, true, true, true, true, true, true, true, true], [true, true, true, true, true, true, true, true, true, true]),
+    (.max 5, .negative, [true, true, true, true, true, true, true, true, true, true], [true, true, true, true, true, true, true, true, true, true]),
+    (.max 5, .nonnegative, [true, true, true, true, true, true, true, true, true, true], [true, true, true, true, true, true, true, true, true, true]),
+    (.max 5, .nonpositive, [true, true, true, true, true, true, true, true, true, true], [true, true, true, true, true, true, true, true, true, true]),
+    (.positive, .negative, [true, true, true, true, true, true, true, true, true, true], [true, true, true, true, true, true, true, true, true, true]),
+    (.positive, .nonnegative, [true, true, true, true, true, true, true, true, true, true], [true, true, true, true, true, true, true, true, true, true]),
+    (.positive, .nonpositive, [true, true, true, true, true, true, true, true, true, true], [true, true, true, true, true, true, true, true, true, true]),
+    (.negative, .nonnegative, [true, true, true, true, true, true, true, true, true, true], [true, true, true, true, true, true, true, true, true, true]),
+    (.negative, .nonpositive, [true, true, true, true, true, true, true, true, true, true], [true, true, true, true, true, true, true, true, true, true]),
+    (.nonnegative, .nonpositive, [true, true, true, true, true, true, true, true, true, true], [true, true, true, true, true, true, true, true, true, true])
   ]
 
 def tagBlock39 : Block where
   fty := ⟨true, .uint32⟩
-  probes := [.nil, .num 0, .num 2, .num 4, .num 6, .num 8, .num 10, .num 12]
+  probes := [.nil, .num 0, .num 2, .num 4, .num 6, .num 8, .num 10, .num 12, .num 8589934588, .num 8589934590]
   singles := [
-    (.required, [false, true, true, true, true, true, true, true]),
-    (.min 3, [true, true, true, true, true, true, true, true]),
-    (.max 5, [true, true, true, true, true, true, true, true]),
-    (.positive, [true, true, true, true, true, true, true, true]),
-    (.negative, [true, true, true, true, true, true, true, true]),
-    (.nonnegative, [true, true, true, true, true, true, true, true]),
-    (.nonpositive, [true, true, true, true, true, true, true, true])
+    (.required, [false, true, true, true, true, true, true, true, true, true]),
+    (.min 3, [true, true, true, true, true, true, true, true, true, true]),
+    (.max 5, [true, true, true, true, true, true, true, true, true, true]),
+    (.positive, [true, true, true, true, true, true, true, true, true, true]),
+    (.negative, [true, true, true, true, true, true, true, true, true, true]),
+    (.nonnegative, [true, true, true, true, true, true, true, true, true, true]),
+    (.nonpositive, [true, true, true, true, true, true, true, true, true, true]),
+    (.min 4294967295, [true, true, true, true, true, true, true, true, true, true]),
+    (.max 4294967295, [true, true, true, true, true, true, true, true, true, true]),
+    (.gt 3, [true, true, true, true, true, true, true, true, true, true]),
+    (.gte 3, [true, true, true, true, true, true, true, true, true, true]),
+    (.lt 5, [true, true, true, true, true, true, true, true, true, true]),
+    (.lte 5, [true, true, true, true, true, true, true, true, true, true])
   ]
   pairs := [
-    (.required, .min 3, [false, true, true, true, true, true, true, true], [false, true, true, true, true, true, true, true]),
-    (.required, .max 5, [false, true, true, true, true, true, true, true], [false, true, true, true, true, true, true, true]),
-    (.required, .positive, [false, true, true, true, true, true, true, true], [false, true, true, true, true, true, true, true]),
-    (.required, .negative, [false, true, true, true, true, true, true, true], [false, true, true, true, true, true, true, true]),
-    (.required, .nonnegative, [false, true, true, true, true, true, true, true], [false, true, true, true, true, true, true, true]),
-    (.required, .nonpositive, [false, true, true, true, true, true, true, true], [false, true, true, true, true, true, true, true]),
-    (.min 3, .max 5, [true, true, true, true, true, true, true, true], [true, true, true, true, true, true, true, true]),
-    (.min 3, .positive, [true, true, true, true, true, true, true, true], [true, true, true, true, true, true, true, true]),
-    (.min 3, .negative, [true, true, true, true, true, true, true, true], [true, true, true, true, true, true, true, true]),
-    (.min 3, .nonnegative, [true, true, true, true, true, true, true, true], [true, true, true, true, true, true, true, true]),
-    (.min 3, .nonpositive, [true, true, true, true, true, true, true, true], [true, true, true, true, true, true, true, true]),
-    (.max 5, .positive, [true, true, true, true, true, true, true, true], [true, true, true, true, true, true, true, true]),
-    (.max 5, .negative, [true, true, true, true, true, true, true, true], [true, true, true, true, true, true, true, true]),
-    (.max 5, .nonnegative, [true, true, true, true, true, true, true, true], [true, true, true, true, true, true, true, true]),
-    (.max 5, .nonpositive, [true, true, true, true, true, true, true, true], [true, true, true, true, true, true, true, true]),
-    (.positive, .negative, [true, true, true, true, true, true, true, true], [true, true, true, true, true, true, true, true]),
-    (.positive, .nonnegative, [true, true, true, true, true, true, true, true], [true, true, true, true, true, true, true, true]),
-    (.positive, .nonpositive, [true, true, true, true, true, true, true, true], [true, true, true, true, true, true, true, true]),
-    (.negative, .nonnegative, [true, true, true, true, true, true, true, true], [true, true, true, true, true, true, true, true]),
-    (.negative, .nonpositive, [true, true, true, true, true, true, true, true], [true, true, true, true, true, true, true, true]),
-    (.nonnegative, .nonpositive, [true, true, true, true, true, true, true, true], [true, true, true, true, true, true, true, true])
+    (.required, .min 3, [false, true, true, true, true, true, true, true, true, true], [false, true, true, true, true, true, true, true, true, true]),
+    (.required, .max 5, [false, true, true, true, true, true, true, true, true, true], [false, true, true, true, true, true, true, true, true, true]),
+    (.required, .positive, [false, true, true, true, true, true, true, true, true, true], [false, true, true, true, true, true, true, true, true, true]),
+    (.required, .negative, [false, true, true, true, true, true, true, true, true, true], [false, true, true, true, true, true, true, true, true, true]),
+    (.required, .nonnegative, [false, true, true, true, true, true, true, true, true, true], [false, true, true, true, true, true, true, true, true, true]),
+    (.required, .nonpositive, [false, true, true, true, true, true, true, true, true, true], [false, true, true, true, true, true, true, true, true, true]),
+    (.min 3, .max 5, [true, true, true, true, true, true, true, true, true, true], [true, true, true, true, true, true, true, true, true, true]),
+    (.min 3, .positive, [true, true, true, true, true, true, true, true, true, true], [true, true, true, true, true, true, true, true, true, true]),
+    (.min 3, .negative, [true, true, true, true, true, true, true, true, true, true], [true, true, true, true, true, true, true, true, true, true]),
+    (.min 3, .nonnegative, [true, true, true, true, true, true, true, true, true, true], [true, true, true, true, true, true, true, true, true, true]),
+    (.min 3, .nonpositive, [true, true, true, true, true, true, true, true, true, true], [true, true, true, true, true, true, true, true, true, true]),
+    (.max 5, .positive, [true, true, true, true, true, true, true, true, true, true], [true, true, true, true, true, true, true, true, true, true]),
+    (.max 5, .negative, [true, true, true, true, true, true, true, true, true, true], [true, true, true, true, true, true, true, true, true, true]),
+    (.max 5, .nonnegative, [true, true, true, true, true, true, true, true, true, true], [true, true, true, true, true, true, true, true, true, true]),
+    (.max 5, .nonpositive, [true, true, true, true, true, true, true, true, true, true], [true, true, true, true, true, true, true, true, true, true]),
+    (.positive, .negative, [true, true, true, true, true, true, true, true, true, true], [true, true, true, true, true, true, true, true, true, true]),
+    (.positive, .nonnegative, [true, true, true, true, true, true, true, true, true, true], [true, true, true, true, true, true, true, true, true, true]),
+    (.positive, .nonpositive, [true, true, true, true, true, true, true, true, true, true], [true, true, true, true, true, true, true, true, true, true]),
+    (.negative, .nonnegative, [true, true, true, true, true, true, true, true, true, true], [true, true, true, true, true, true, true, true, true, true]),
+    (.negative, .nonpositive, [true, true, true, true, true, true, true, true, true, true], [true, true, true, true, true, true, true, true, true, true]),
+    (.nonnegative, .nonpositive, [true, true, true, true, true, true, true, true, true, true], [true, true, true, true, true, true, true, true, true, true])
   ]
 
 def tagBlock40 : Block where
   fty := ⟨true, .uint64⟩
-  probes := [.nil, .num 0, .num 2, .num 4, .num 6, .num 8, .num 10, .num 12]
+  probes := [.nil, .num 0, .num 2, .num 4, .num 6, .num 8, .num 10, .num 12, .num 18014398509481984, .num 18014398509481986, .num 18014398509481988, .num 18446744073709551612, .num 18446744073709551614, .num 18446744073709551616, .num 36893488147419103228, .num 36893488147419103230]
   singles := [
-    (.required, [false, true, true, true, true, true, true, true]),
-    (.min 3, [true, true, true, true, true, true, true, true]),
-    (.max 5, [true, true, true, true, true, true, true, true]),
-    (.positive, [true, true, true, true, true, true, true, true]),
-    (.negative, [true, true, true, true, true, true, true, true]),
-    (.nonnegative, [true, true, true, true, true, true, true, true]),
-    (.nonpositive, [true, true, true, true, true, true, true, true])
+    (.required, [false, true, true, true, true, true, true, true, true, true, true, true, true, true, true, true]),
+    (.min 3, [true, true, true, true, true, true, true, true, true, true, true, true, true, true, true, true]),
+    (.max 5, [true, true, true, true, true, true, true, true, true, true, true, true, true, true, true, true]),
+    (.positive, [true, true, true, true, true, true, true, true, true, true, true, true, true, true, true, true]),
+    (.negative, [true, true, true, true, true, true, true, true, true, true, true, true, true, true, true, true]),
+    (.nonnegative, [true, true, true, true, true, true, true, true, true, true, true, true, true, true, true, true]),
+    (.nonpositive, [true, true, true, true, true, true, true, true, true, true, true, true, true, true, true, true]),
+    (.min 9007199254740993, [true, true, true, true, true, true, true, true, true, true, true, true, true, true, true, true]),
+    (.max 9007199254740993, [true, true, true, true, true, true, true, true, true, true, true, true, true, true, true, true]),
+    (.min 9223372036854775807, [true, true, true, true, true, true, true, true, true, true, true, true, true, true, true, true]),
+    (.max 9223372036854775807, [true, true, true, true, true, true, true, true, true, true, true, true, true, true, true, true]),
+    (.min 18446744073709551615, [true, true, true, true, true, true, true, true, true, true, true, true, true, true, true, true]),
+    (.max 18446744073709551615, [true, true, true, true, true, true, true, true, true, true, true, true, true, true, true, true]),
+    (.gt 9007199254740993, [true, true, true, true, true, true, true, true, true, true, true, true, true, true, true, true]),
+    (.gte 9007199254740993, [true, true, true, true, true, true, true, true, true, true, true, true, true, true, true, true]),
+    (.lt 9007199254740993, [true, true, true, true, true, true, true, true, true, true, true, true, true, true, true, true]),
+    (.lte 9007199254740993, [true, true, true, true, true, true, true, true, true, true, true, true, true, true, true, true]),
+    (.gt 3, [true, true, true, true, true, true, true, true, true, true, true, true, true, true, true, true]),
+    (.gte 3, [true, true, true, true, true, true, true, true, true, true, true, true, true, true, true, true]),
+    (.lt 5, [true, true, true, true, true, true, true, true, true, true, true, true, true, true, true, true]),
+    (.lte 5, [true, true, true, true, true, true, true, true, true, true, true, true, true, true, true, true])
   ]
   pairs := [
-    (.required, .min 3, [false, true, true, true, true, true, true, true], [false, true, true, true, true, true, true, true]),
-    (.required, .max 5, [false, true, true, true, true, true, true, true], [false, true, true, true, true, true, true, true]),
-    (.required, .positive, [false, true, true, true, true, true, true, true], [false, true, true, true, true, true, true, true]),
-    (.required, .negative, [false, true, true, true, true, true, true, true], [false, true, true, true, true, true, true, true]),
-    (.required, .nonnegative, [false, true, true, true, true, true, true, true], [false, true, true, true, true, true, true, true]),
-    (.required, .nonpositive, [false, true, true, true, true, true, true, true], [false, true, true, true, true, true, true, true]),
-    (.min 3, .max 5, [true, true, true, true, true, true, true, true], [true, true, true, true, true, true, true, true]),
-    (.min 3, .positive, [true, true, true, true, true, true, true, true], [true, true, true, true, true, true, true, true]),
-    (.min 3, .negative, [true, true, true, true, true, true, true, true], [true, true, true, true, true, true, true, true]),
-    (.min 3, .nonnegative, [true, true, true, true, true, true, true, true], [true, true, true, true, true, true, true, true]),
-    (.min 3, .nonpositive, [true, true, true, true, true, true, true, true], [true, true, true, true, true, true, true, true]),
-    (.max 5, .positive, [true, true, true, true, true, true, true, true], [true, true, true, true, true, true, true, true]),
-    (.max 5, .negative, [true, true, true, true, true, true, true, true], [true, true, true, true, true, true, true, true]),
-    (.max 5, .nonnegative, [true, true, true, true, true, true, true, true], [true, true, true, true, true, true, true, true]),
-    (.max 5, .nonpositive, [true, true, true, true, true, true, true, true], [true, true, true, true, true, true, true, true]),
-    (.positive, .negative, [true, true, true, true, true, true, true, true], [true, true, true, true, true, true, true, true]),
-    (.positive, .nonnegative, [true, true, true, true, true, true, true, true], [true, true, true, true, true, true, true, true]),
-    (.positive, .nonpositive, [true, true, true, true, true, true, true, true], [true, true, true, true, true, true, true, true]),
-    (.negative, .nonnegative, [true, true, true, true, true, true, true, true], [true, true, true, true, true, true, true, true]),
-    (.negative, .nonpositive, [true, true, true, true, true, true, true, true], [true, true, true, true, true, true, true, true]),
-    (.nonnegative, .nonpositive, [true, true, true, true, true, true, true, true], [true, true, true, true, true, true, true, true])
+    (.required, .min 3, [false, true, true, true, true, true, true, true, true, true, true, true, true, true, true, true], [false, true, true, true, true, true, true, true, true, true, true, true, true, true, true, true]),
+    (.required, .max 5, [false, true, true, true, true, true, true, true, true, true, true, true, true, true, true, true], [false, true, true, true, true, true, true, true, true, true, true, true, true, true, true, true]),
+    (.required, .positive, [false, true, true, true, true, true, true, true, true, true, true, true, true, true, true, true], [false, true, true, true, true, true, true, true, true, true, true, true, true, true, true, true]),
+    (.required, .negative, [false, true, true, true, true, true, true, true, true, true, true, true, true, true, true, true], [false, true, true, true, true, true, true, true, true, true, true, true, true, true, true, true]),
+    (.required, .nonnegative, [false, true, true, true, true, true, true, true, true, true, true, true, true, true, true, true], [false, true, true, true, true, true, true, true, true, true, true, true, true, true, true, true]),
+    (.required, .nonpositive, [false, true, true, true, true, true, true, true, true, true, true, true, true, true, true, true], [false, true, true, true, true, true, true, true, true, true, true, true, true, true, true, true]),
+    (.min 3, .max 5, [true, true, true, true, true, true, true, true, true, true, true, true, true, true, true, true], [true, true, true, true, true, true, true, true, true, true, true, true, true, true, true, true]),
+    (.min 3, .positive, [true, true, true, true, true, true, true, true, true, true, true, true, true, true, true, true], [true, true, true, true, true, true, true, true, true, true, true, true, true, true, true, true]),
+    (.min 3, .negative, [true, true, true, true, true, true, true, true, true, true, true, true, true, true, true, true], [true, true, true, true, true, true, true, true, true, true, true, true, true, true, true, true]),
+    (.min 3, .nonnegative, [true, true, true, true, true, true, true, true, true, true, true, true, true, true, true, true], [true, true, true, true, true, true, true, true, true, true, true, true, true, true, true, true]),
+    (.min 3, .nonpositive, [true, true, true, true, true, true, true, true, true, true, true, true, true, true, true, true], [true, true, true, true, true, true, true, true, true, true, true, true, true, true, true, true]),
+    (.max 5, .positive, [true, true, true, true, true, true, true, true, true, true, true, true, true, true, true, true], [true, true, true, true, true, true, true, true, true, true, true, true, true, true, true, true]),
+    (.max 5, .negative, [true, true, true, true, true, true, true, true, true, true, true, true, true, true, true, true], [true, true, true, true, true, true, true, true, true, true, true, true, true, true, true, true]),
+    (.max 5, .nonnegative, [true, true, true, true, true, true, true, true, true, true, true, true, true, true, true, true], [true, true, true, true, true, true, true, true, true, true, true, true, true, true, true, true]),
+    (.max 5, .nonpositive, [true, true, true, true, true, true, true, true, true, true, true, true, true, true, true, true], [true, true, true, true, true, true, true, true, true, true, true, true, true, true, true, true]),
+    (.positive, .negative, [true, true, true, true, true, true, true, true, true, true, true, true, true, true, true, true], [true, true, true, true, true, true, true, true, true, true, true, true, true, true, true, true]),
+    (.positive, .nonnegative, [true, true, true, true, true, true, true, true, true, true, true, true, true, true, true, true], [true, true, true, true, true, true, true, true, true, true, true, true, true, true, true, true]),
+    (.positive, .nonpositive, [true, true, true, true, true, true, true, true, true, true, true, true, true, true, true, true], [true, true, true, true, true, true, true, true, true, true, true, true, true, true, true, true]),
+    (.negative, .nonnegative, [true, true, true, true, true, true, true, true, true, true, true, true, true, true, true, true], [true, true, true, true, true, true, true, true, true, true, true, true, true, true, true, true]),
+    (.negative, .nonpositive, [true, true, true, true, true, true, true, true, true, true, true, true, true, true, true, true], [true, true, true, true, true, true, true, true, true, true, true, true, true, true, true, true]),
+    (.nonnegative, .nonpositive, [true, true, true, true, true, true, true, true, true, true, true, true, true, true, true, true], [true, true, true, true, true, true, true, true, true, true, true, true, true, true, true, true])
   ]
 
 def tagBlock41 : Block where
@@ -1197,7 +1401,11 @@ def tagBlock41 : Block where
     (.positive, [true, true, true, true, true, true, true, true, true, true, true, true, true, true, true]),
     (.negative, [true, true, true, true, true, true, true, true, true, true, true, true, true, true, true]),
     (.nonnegative, [true, true, true, true, true, true, true, true, true, true, true, true, true, true, true]),
-    (.nonpositive, [true, true, true, true, true, true, true, true, true, true, true, true, true, true, true])
+    (.nonpositive, [true, true, true, true, true, true, true, true, true, true, true, true, true, true, true]),
+    (.gt 3, [true, true, true, true, true, true, true, true, true, true, true, true, true, true, true]),
+    (.gte 3, [true, true, true, true, true, true, true, true, true, true, true, true, true, true, true]),
+    (.lt 5, [true, true, true, true, true, true, true, true, true, true, true, true, true, true, true]),
+    (.lte 5, [true, true, true, true, true, true, true, true, true, true, true, true, true, true, true])
   ]
   pairs := [
     (.required, .min 3, [false, true, true, true, true, true, true, true, true, true, true, true, true, true, true], [false, true, true, true, true, true, true, true, true, true, true, true, true, true, true]),
@@ -1233,7 +1441,11 @@ def tagBlock42 : Block where
     (.positive, [true, true, true, true, true, true, true, true, true, true, true, true, true, true, true]),
     (.negative, [true, true, true, true, true, true, true, true, true, true, true, true, true, true, true]),
     (.nonnegative, [true, true, true, true, true, true, true, true, true, true, true, true, true, true, true]),
-    (.nonpositive, [true, true, true, true, true, true, true, true, true, true, true, true, true, true, true])
+    (.nonpositive, [true, true, true, true, true, true, true, true, true, true, true, true, true, true, true]),
+    (.gt 3, [true, true, true, true, true, true, true, true, true, true, true, true, true, true, true]),
+    (.gte 3, [true, true, true, true, true, true, true, true, true, true, true, true, true, true, true]),
+    (.lt 5, [true, true, true, true, true, true, true, true, true, true, true, true, true, true, true]),
+    (.lte 5, [true, true, true, true, true, true, true, true, true, true, true, true, true, true, true])
   ]
   pairs := [
     (.required, .min 3, [false, true, true, true, true, true, true, true, true, true, true, true, true, true, true], [false, true, true, true, true, true, true, true, true, true, true, true, true, true, true]),
